@@ -14,6 +14,12 @@ import (
 
 // C15 — ttlcache: Get never returns an expired, deleted or superseded value;
 // Cleanup removes only expired entries; Stop waits for the cleaner.
+//
+// Anchors are the EXPORTED api (Cache, CacheOptions, NewCache, Get, Set,
+// Delete, Cleanup, Reset, Stop, CacheOptions.MaxTTL), the haxmap and time
+// libraries. Everything unexported (fields, the entry type, helper methods,
+// the goroutine body) is found by ROLE — see c15ResolveRoles — and all rules
+// follow calls (x.walk / x.must / strip through helpers).
 
 const c15Hax = "github.com/alphadose/haxmap"
 
@@ -25,49 +31,45 @@ type c15K struct {
 	p     *Prog
 	x     *c15X
 	pkg   string
-	runCh string
-	stpCh string
+	mapF  string // field of Cache holding the *haxmap.Map
+	valF  string // field of the entry type holding the value
+	runF  string // chan field of Cache the cleaner closes on exit / Stop waits on ("" = unresolved)
+	stpF  string // chan field of Cache Stop closes / the cleaner selects on
+	runWG bool   // the join is a sync.WaitGroup field (Done on exit / Wait in Stop) instead of a channel
+	optsT string // "pkg.CacheOptions"
 }
 
+func (k *c15K) fld(name string) string { return "Cache." + name }
+
 func checkC15(c *Ctx) {
-	r, p := c.R, c.P
-	r.Explanation = "Decides structural necessary conditions of C15 on ttlcache/ttlcache.go. (U1) every return of Cache.Get that can report ok=true is reached only under `entry.exp > clock.Now()` (strict), where entry is the result of the lookup on Cache.m made in that Get and Now() is a reading of the cache's own clock taken during that Get; (U2) in Cache.Set every returning path stores into Cache.m, the stored expiry is, on every path, clock.Now().Add(T*time.Second) with Now() read from the cache's clock in Set (an expiry taken from an existing entry — kept, later-of — is a violation), and on every path T is ttl (only where maxTTL<=0 or ttl<=maxTTL is known) or maxTTL (only where maxTTL>0 and ttl>=maxTTL is known), i.e. T=min(ttl,maxTTL) when a cap is configured; NewCache wires CacheOptions.MaxTTL into Cache.maxTTL; (U3) every key that Cleanup hands to a delete was collected from the ForEach callback's own key parameter under `clock.Now() >(=) that entry's exp` with Now() read from the cache clock during Cleanup; the background goroutine mutates the map only by calling Cleanup — directly or through a method value / func variable / phi of them, all of whose possible targets are resolved — and starts nothing that can mutate the map with `go` (a detached Cleanup outlives the close of runningCh); (U4) every return of Stop is preceded by a receive on Cache.runningCh; Stop closes Cache.stopCh and not after waiting; runningCh is closed only by the function started with `go`, on every exit of it, with no cleaning after the close; every wait of that goroutine is a select with a Cache.stopCh case that leaves the loop; runningCh is created before the goroutine starts and NewCache always starts it; (U5) Delete always deletes from Cache.m; Reset's ForEach callback collects every key and never stops the iteration, and the collected keys are deleted; (U6) Cache.m is mutated only by the audited sites, and Get/Set/Delete pass their key parameter unchanged to the map (a transformation at only some of them is UNDECIDED); the entry stored by Set carries Set's value parameter. NOT decided: the history-level claim itself (it rests on haxmap's linearizable Get/Set/Del semantics and on the documented cleanup/refresh race, neither analysed); that the value returned is the most recently Set one under concurrency; behaviour for ttl<=0 (outside the quantifier: NOTE only); overflow of ttl*time.Second for ttl > ~292 years; that the periodic cleaner actually runs Cleanup (not needed by the statement: Get checks expiry itself)."
+	r := c.R
+	r.Explanation = "Decides structural necessary conditions of C15 on package ttlcache. Only the exported API, haxmap and time are name anchors; unexported fields, the entry type, helpers and the goroutine body are resolved by role (the *haxmap.Map field of Cache, the type stored in it and its time.Time / value fields, the field of Cache with a Now() method, the integer field NewCache fills from CacheOptions.MaxTTL, the channel the goroutine started by NewCache closes / selects on) and every rule follows calls into same-package helpers, bound methods, closures and func values with known targets. (U1) every return of Get that can report ok=true is reached, on every path, only under `entry.exp > clock.Now()` (strict), entry being the result of that call's lookup on the map and Now() a reading of the cache's own clock taken during the call; (U2) every returning path of Set stores into the map; the stored expiry is, on every path, clock.Now().Add(T*time.Second) with Now() read from the cache clock during Set (an expiry taken from an existing entry is a violation); T is ttl only where maxTTL<=0 or ttl<=maxTTL is established and maxTTL only where maxTTL>0 and ttl>=maxTTL is; the stored value is Set's value parameter; NewCache wires CacheOptions.MaxTTL into the cap field; (U3) every key Cleanup hands to a delete is the key parameter of a ForEach callback over the map, committed on every path only under `clock.Now() >(=) exp` of that callback's own entry (predicates passed as func values are evaluated in Cleanup's context); every delete the background goroutine can perform (through Cleanup or directly through the helpers Cleanup is made of, whatever the func value) satisfies the same expired-only condition, it performs no other mutation of the store, and none of it is started with `go`; (U4) every return of Stop is preceded by a receive on the done channel; Stop closes the stop channel, not after waiting; the done channel is closed only by the goroutine NewCache starts, on every exit, with no cleaning after it; every wait of that goroutine is a select with a stop-channel case after which the wait is not reached again; the done channel is created before the goroutine starts and NewCache always starts it; (U5) Delete always deletes from the map; in Reset's context the ForEach callback commits every key on every feasible path and never stops the iteration, and the keys are deleted; (U6) the map is mutated only by the audited entry points and Get/Set/Delete pass their key unchanged. NOT decided: the history-level claim itself (rests on haxmap's semantics and the documented cleanup/refresh race); concurrency of Set/Get; ttl<=0 (outside the quantifier: NOTE only); overflow of ttl*time.Second; that the periodic cleaner actually runs Cleanup; join/stop mechanisms other than channel fields of Cache (sync.WaitGroup, context) are UNDECIDED."
 	r.Assumptions = append(r.Assumptions,
 		"haxmap.Map Get/Set/Del/ForEach have their documented map semantics (ForEach stops when the callback returns false)",
-		"time.Time.After/Before/Equal/Compare/Sub/Add have their documented meaning; clock.Now() of k8s.io/utils/clock returns the cache clock's current time",
-		"Cache.maxTTL and Cache.clock are written only by NewCache (checked: a store elsewhere makes the check UNDECIDED)")
+		"time.Time.After/Before/Equal/Compare/Sub/Add and clock.Now/Since have their documented meaning",
+		"the cap and clock fields of Cache are written only while NewCache runs (checked: a store elsewhere makes the check UNDECIDED)",
+		"function-typed arguments handed to library code (ForEach, sync.Once.Do) run during that call")
 
 	r.Rule("C15.U1-get-strict", "Get reports a hit only under entry.exp > clock.Now() (strict; entry from this Get's lookup; cache clock read during Get)", 1)
-	r.Rule("C15.U2-set-store", "every returning path of Set stores the entry into Cache.m", 1)
+	r.Rule("C15.U2-set-store", "every returning path of Set stores the entry into the map", 1)
 	r.Rule("C15.U2-set-expiry", "stored expiry = clock.Now().Add(T*time.Second), Now() from the cache clock read in Set", 1)
 	r.Rule("C15.U2-set-cap", "T = ttl only where no cap applies, T = maxTTL only where maxTTL>0 and ttl>=maxTTL", 2)
 	r.Rule("C15.U2-set-value", "the entry stored by Set carries Set's value parameter", 1)
-	r.Rule("C15.U2-wire-maxttl", "NewCache stores CacheOptions.MaxTTL into Cache.maxTTL", 1)
-	r.Rule("C15.U3-cleanup-expired-only", "every key deleted by Cleanup was collected under clock.Now() >(=) entry.exp for that key's own entry", 1)
-	r.Rule("C15.U3-periodic-via-cleanup", "every possible target (direct, method value, func variable, phi) of a mutating call in the background goroutine is Cache.Cleanup", 1)
-	r.Rule("C15.U4-stop-waits", "every return of Stop is preceded by a receive on Cache.runningCh", 1)
-	r.Rule("C15.U4-stop-signals", "Stop closes Cache.stopCh, and never after having waited on runningCh", 1)
-	r.Rule("C15.U4-cleaner-exit", "runningCh is closed only by the goroutine body, on every exit, and nothing cleans after the close", 1)
-	r.Rule("C15.U4-cleaner-synchronous", "inside the cleaner goroutine (and inside Cleanup) nothing that can mutate Cache.m is started with go", 1)
-	r.Rule("C15.U4-cleaner-stopcase", "every wait of the cleaner goroutine is a select with a Cache.stopCh case that leaves the loop", 1)
-	r.Rule("C15.U4-cleaner-start", "runningCh is created before the cleaner is started and NewCache always starts it", 1)
-	r.Rule("C15.U5-delete", "every return of Delete is preceded by a delete of the key from Cache.m", 1)
-	r.Rule("C15.U5-reset", "Reset collects every key (callback never stops the iteration, appends on every path) and deletes the collected keys", 1)
-	r.Rule("C15.U6-same-key", "Get, Set and Delete address Cache.m with the key exactly as given (a transformed key at only some of them cannot be decided)", 3)
-	r.Rule("C15.U6-writers", "Cache.m is mutated only through the audited sites (Set in Set; Del in Delete/Cleanup/Reset)", 4)
+	r.Rule("C15.U2-wire-maxttl", "NewCache stores CacheOptions.MaxTTL into the cap field Set reads", 1)
+	r.Rule("C15.U3-cleanup-expired-only", "every key deleted by Cleanup was committed under clock.Now() >(=) entry.exp for that key's own entry", 1)
+	r.Rule("C15.U3-periodic-via-cleanup", "every delete the background goroutine can perform (through Cleanup, helpers, method values, func variables) removes expired entries only; it does not otherwise mutate the store", 1)
+	r.Rule("C15.U4-stop-waits", "every return of Stop is preceded by a receive on the done channel", 1)
+	r.Rule("C15.U4-stop-signals", "Stop closes the stop channel, and never after having waited on the done channel", 1)
+	r.Rule("C15.U4-cleaner-exit", "the done channel is closed only by the goroutine NewCache starts, on every exit, and nothing cleans after the close", 1)
+	r.Rule("C15.U4-cleaner-synchronous", "inside the cleaner goroutine (and inside Cleanup) nothing that can mutate the map is started with go", 1)
+	r.Rule("C15.U4-cleaner-stopcase", "every wait of the cleaner goroutine is a select with a stop-channel case after which the wait is not reached again", 1)
+	r.Rule("C15.U4-cleaner-start", "the done channel is created before the cleaner is started and NewCache always starts it", 1)
+	r.Rule("C15.U5-delete", "every return of Delete is preceded by a delete from the map", 1)
+	r.Rule("C15.U5-reset", "Reset commits every key (callback never stops the iteration, commits on every feasible path) and deletes the committed keys", 1)
+	r.Rule("C15.U6-same-key", "Get, Set and Delete address the map with the key exactly as given (a transformed key at only some of them cannot be decided)", 3)
+	r.Rule("C15.U6-writers", "the map is mutated only through the audited entry points (Set in Set; Del in Delete/Cleanup/Reset)", 4)
 
-	pkg := p.ModPath + "/ttlcache"
-	cacheN := p.Named("ttlcache", "Cache")
-	entryN := p.Named("ttlcache", "cacheEntry")
-	c15NeedFields(cacheN, "m", "clock", "runningCh", "stopCh", "maxTTL")
-	c15NeedFields(entryN, "exp", "val")
-	c15NeedFields(p.Named("ttlcache", "CacheOptions"), "MaxTTL")
-
-	k := &c15K{c: c, r: r, p: p, pkg: pkg,
-		x:     &c15X{p: p, cfg: c15Cfg{CacheT: pkg + ".Cache", EntryT: pkg + ".cacheEntry", ClockF: "clock", ExpF: "exp", MaxF: "maxTTL"}},
-		runCh: "field:" + pkg + ".Cache.runningCh",
-		stpCh: "field:" + pkg + ".Cache.stopCh",
-	}
+	k := c15ResolveRoles(c)
 	k.checkGet()
 	k.checkSet()
 	k.checkWire()
@@ -77,7 +79,8 @@ func checkC15(c *Ctx) {
 	k.checkWriters()
 
 	c.Fixture("c15ttl", func(fp *Prog, fr *Report) {
-		fx := &c15X{p: fp, cfg: c15Cfg{CacheT: fp.ModPath + ".cache", EntryT: fp.ModPath + ".entry", ClockF: "clock", ExpF: "exp", MaxF: "maxTTL"}}
+		fx := &c15X{p: fp, cfg: c15Cfg{CacheT: fp.ModPath + ".cache", EntryT: fp.ModPath + ".entry", ClockF: "clock", ExpF: "exp", MaxF: "maxTTL"},
+			noInline: func(f *ssa.Function) bool { return f.Name() == "lookup" || f.Name() == "store" }}
 		for _, fn := range fp.Funcs {
 			if fn.Parent() != nil || fn.Signature.Recv() == nil {
 				continue
@@ -85,12 +88,12 @@ func checkC15(c *Ctx) {
 			name := strings.ToLower(fn.Name())
 			switch {
 			case strings.HasSuffix(name, "get"):
-				c15GetRule(fp, fr, fx, fn, "hit", func(call *ssa.Call) bool {
+				c15GetRule(fp, fr, fx, fn, "hit", func(call *ssa.Call, _ *c15Env) bool {
 					obj := calleeObj(call)
 					return obj != nil && obj.Name() == "lookup"
 				})
 			case strings.HasSuffix(name, "set"):
-				c15CapRule(fp, fr, fx, fn, "cap", "expiry", func(call *ssa.Call) bool {
+				c15CapRule(fp, fr, fx, fn, "cap", "expiry", "value", "val", func(call *ssa.Call, _ *c15Env) bool {
 					obj := calleeObj(call)
 					return obj != nil && obj.Name() == "store"
 				})
@@ -107,6 +110,431 @@ func checkC15(c *Ctx) {
 			}
 		}
 	})
+}
+
+// ------------------------------------------------------------------ roles
+
+func c15StructOf(n *types.Named) *types.Struct {
+	st, _ := n.Underlying().(*types.Struct)
+	return st
+}
+
+func c15IsTimeTime(t types.Type) bool {
+	n, ok := types.Unalias(t).(*types.Named)
+	return ok && n.Obj().Pkg() != nil && n.Obj().Pkg().Path() == "time" && n.Obj().Name() == "Time"
+}
+
+// c15HasNow: t's method set has Now() time.Time.
+func c15HasNow(t types.Type) bool {
+	ms := types.NewMethodSet(t)
+	for i := 0; i < ms.Len(); i++ {
+		f, ok := ms.At(i).Obj().(*types.Func)
+		if !ok || f.Name() != "Now" {
+			continue
+		}
+		sig := f.Type().(*types.Signature)
+		if sig.Params().Len() == 0 && sig.Results().Len() == 1 && c15IsTimeTime(sig.Results().At(0).Type()) {
+			return true
+		}
+	}
+	return false
+}
+
+// c15ResolveRoles finds the unexported constructs by their role.
+func c15ResolveRoles(c *Ctx) *c15K {
+	p := c.P
+	pkg := p.ModPath + "/ttlcache"
+	cacheN := p.Named("ttlcache", "Cache")
+	optsN := p.Named("ttlcache", "CacheOptions")
+	c15NeedFields(optsN, "MaxTTL")
+	cst := c15StructOf(cacheN)
+	if cst == nil {
+		undecided("anchor type Cache is no longer a struct")
+	}
+	k := &c15K{c: c, r: c.R, p: p, pkg: pkg, optsT: pkg + ".CacheOptions"}
+	cfg := c15Cfg{CacheT: pkg + ".Cache"}
+	var mapT *types.Named
+	var ints, chans, clocks []string
+	for i := 0; i < cst.NumFields(); i++ {
+		f := cst.Field(i)
+		ft := types.Unalias(f.Type())
+		if n, ok := deref(ft).(*types.Named); ok && n.Obj().Pkg() != nil && n.Obj().Pkg().Path() == c15Hax && n.Obj().Name() == "Map" {
+			if mapT != nil {
+				undecided("Cache has more than one haxmap.Map field: the store cannot be identified")
+			}
+			mapT, k.mapF = n, f.Name()
+			continue
+		}
+		switch u := ft.Underlying().(type) {
+		case *types.Chan:
+			chans = append(chans, f.Name())
+		case *types.Basic:
+			if u.Info()&types.IsInteger != 0 {
+				ints = append(ints, f.Name())
+			}
+		case *types.Interface:
+			if c15HasNow(ft) {
+				clocks = append(clocks, f.Name())
+			}
+		default:
+			if _, isPtr := ft.(*types.Pointer); isPtr && c15HasNow(ft) {
+				clocks = append(clocks, f.Name())
+			}
+		}
+	}
+	if mapT == nil {
+		undecided("Cache no longer has a *haxmap.Map field (the store anchor moved)")
+	}
+	if len(clocks) != 1 {
+		undecided("Cache has %d fields with a Now() time.Time method; the cache clock cannot be identified", len(clocks))
+	}
+	cfg.ClockF = clocks[0]
+	// the entry type: the value type argument of the map
+	if mapT.TypeArgs() == nil || mapT.TypeArgs().Len() != 2 {
+		undecided("the map field of Cache is not an instantiated haxmap.Map[K,V]")
+	}
+	en, ok := deref(mapT.TypeArgs().At(1)).(*types.Named)
+	if !ok || en.Obj().Pkg() == nil || en.Obj().Pkg().Path() != pkg {
+		undecided("the values stored in the map are not of a struct type of package ttlcache")
+	}
+	cfg.EntryT = namedKey(en)
+	est := c15StructOf(en.Origin())
+	if est == nil {
+		undecided("the entry type %s is not a struct", en.Obj().Name())
+	}
+	var times, others []string
+	for i := 0; i < est.NumFields(); i++ {
+		if c15IsTimeTime(est.Field(i).Type()) {
+			times = append(times, est.Field(i).Name())
+		} else {
+			others = append(others, est.Field(i).Name())
+		}
+	}
+	if len(times) != 1 {
+		undecided("the entry type has %d time.Time fields; the expiry cannot be identified", len(times))
+	}
+	cfg.ExpF = times[0]
+	for i := 0; i < est.NumFields(); i++ {
+		if _, isTP := est.Field(i).Type().(*types.TypeParam); isTP {
+			k.valF = est.Field(i).Name()
+		}
+	}
+	if k.valF == "" && len(others) == 1 {
+		k.valF = others[0]
+	}
+	if k.valF == "" {
+		undecided("the value field of the entry type cannot be identified")
+	}
+	k.x = &c15X{p: p, cfg: cfg}
+	// the cap field: the integer field NewCache fills from CacheOptions.MaxTTL;
+	// with a single integer field that one (so that a dropped wiring is seen as such)
+	k.x.cfg.MaxF = k.wiredFrom(ints)
+	if k.x.cfg.MaxF == "" {
+		if len(ints) == 1 {
+			k.x.cfg.MaxF = ints[0]
+		} else if len(ints) > 1 {
+			for _, n := range ints {
+				if strings.Contains(strings.ToLower(n), "ttl") { // name as a hint only
+					k.x.cfg.MaxF = n
+				}
+			}
+		}
+	}
+	k.resolveChans(chans)
+	return k
+}
+
+// wiredFrom: the integer field of Cache that (in NewCache's walk) receives a
+// value read from CacheOptions.MaxTTL.
+func (k *c15K) wiredFrom(ints []string) string {
+	nc := k.p.Func("ttlcache", "NewCache")
+	isInt := map[string]bool{}
+	for _, n := range ints {
+		isInt[n] = true
+	}
+	found := ""
+	ctx := k.x.newCtx()
+	k.x.walk(ctx, nc, nil, nil, func(in ssa.Instruction, env *c15Env) {
+		st, ok := in.(*ssa.Store)
+		if !ok {
+			return
+		}
+		fa, ok := st.Addr.(*ssa.FieldAddr)
+		if !ok {
+			return
+		}
+		id := fieldIDOfAddr(fa)
+		if id.Type != k.x.cfg.CacheT || !isInt[id.Field] {
+			return
+		}
+		for _, cs := range ctx.cases(st.Val, env, c15Set{}, 0) {
+			if _, _, rid, ok := k.x.fieldRead(cs.V, cs.Env); ok && rid.Type == k.optsT && rid.Field == "MaxTTL" {
+				found = id.Field
+			}
+		}
+	}, nil)
+	return found
+}
+
+// chanField: v (in env) is a read of a chan field of Cache; returns its name.
+func (k *c15K) chanField(v ssa.Value, env *c15Env) string {
+	if _, _, id, ok := k.x.fieldRead(v, env); ok && id.Type == k.x.cfg.CacheT {
+		return id.Field
+	}
+	// the channel itself, made locally and also stored into a field of Cache
+	sv, _ := k.x.strip(v, env)
+	for i := 0; i < 4; i++ {
+		if cv, ok := sv.(*ssa.ChangeType); ok {
+			sv = cv.X
+			continue
+		}
+		break
+	}
+	if mk, ok := sv.(*ssa.MakeChan); ok {
+		found := ""
+		var scan func(v ssa.Value, depth int)
+		scan = func(v ssa.Value, depth int) {
+			for _, r := range refs(v) {
+				switch t := r.(type) {
+				case *ssa.Store:
+					if fa, ok := t.Addr.(*ssa.FieldAddr); ok && t.Val == v {
+						if id := fieldIDOfAddr(fa); id.Type == k.x.cfg.CacheT {
+							found = id.Field
+						}
+					}
+				case *ssa.ChangeType:
+					if depth < 3 {
+						scan(t, depth+1)
+					}
+				}
+			}
+		}
+		scan(mk, 0)
+		return found
+	}
+	return ""
+}
+
+func (k *c15K) recvField(in ssa.Instruction, env *c15Env) string {
+	if u, ok := in.(*ssa.UnOp); ok && u.Op == token.ARROW {
+		return k.chanField(u.X, env)
+	}
+	return ""
+}
+
+func (k *c15K) closeField(in ssa.Instruction, env *c15Env) string {
+	ci, ok := in.(ssa.CallInstruction)
+	if !ok || builtinName(ci) != "close" || len(ci.Common().Args) != 1 {
+		return ""
+	}
+	return k.chanField(ci.Common().Args[0], env)
+}
+
+// wgOp: in is (*sync.WaitGroup).<name> on a WaitGroup field of Cache; returns the field.
+func (k *c15K) wgOp(in ssa.Instruction, name string) string {
+	ci, ok := in.(ssa.CallInstruction)
+	if !ok || !callIs(ci, "sync", "WaitGroup", name) || len(ci.Common().Args) == 0 {
+		return ""
+	}
+	v := ci.Common().Args[0]
+	if fa, ok := v.(*ssa.FieldAddr); ok {
+		if id := fieldIDOfAddr(fa); id.Type == k.x.cfg.CacheT {
+			return id.Field
+		}
+	}
+	return ""
+}
+
+// joinWait / joinSignal / joinArm: the three operations of the join between
+// Stop and the cleaner: wait for it (receive / Wait), signal the exit (close /
+// Done), arm it before the goroutine starts (make(chan) / Add).
+func (k *c15K) joinWait(in ssa.Instruction, env *c15Env) bool {
+	if k.runWG {
+		return k.wgOp(in, "Wait") == k.runF
+	}
+	return k.recvField(in, env) == k.runF
+}
+
+func (k *c15K) joinSignal(in ssa.Instruction, env *c15Env) bool {
+	if k.runWG {
+		return k.wgOp(in, "Done") == k.runF
+	}
+	return k.closeField(in, env) == k.runF
+}
+
+func (k *c15K) joinArm(in ssa.Instruction, env *c15Env) bool {
+	if k.runWG {
+		return k.wgOp(in, "Add") == k.runF
+	}
+	st, ok := in.(*ssa.Store)
+	if !ok {
+		return false
+	}
+	if fa, ok := st.Addr.(*ssa.FieldAddr); ok {
+		if id := fieldIDOfAddr(fa); id.Type == k.x.cfg.CacheT && id.Field == k.runF {
+			sv, _ := k.x.strip(st.Val, env)
+			_, isMk := sv.(*ssa.MakeChan)
+			return isMk
+		}
+	}
+	return false
+}
+
+// goSites: the go statements reached from NewCache, with the activation of
+// the function they start.
+type c15Go struct {
+	Site c15Site
+	Tg   c15Target
+	Env  *c15Env // activation of the goroutine body
+}
+
+func (k *c15K) goSites() []c15Go {
+	nc := k.p.Func("ttlcache", "NewCache")
+	var out []c15Go
+	ctx := k.x.newCtx()
+	k.x.walk(ctx, nc, nil, nil, func(in ssa.Instruction, env *c15Env) {
+		g, ok := in.(*ssa.Go)
+		if !ok || env != nil && k.underGo(env) {
+			return
+		}
+		ts, _ := k.x.callTargets(&g.Call, env)
+		for _, tg := range ts {
+			if k.x.inlinable(tg.Fn) {
+				ge := k.x.activate(tg, g.Call.Args, env, in, "go")
+				ge.pre = nil
+				out = append(out, c15Go{c15Site{in, env}, tg, ge})
+			}
+		}
+	}, nil)
+	return out
+}
+
+func (k *c15K) underGo(env *c15Env) bool {
+	for e := env; e != nil; e = e.up {
+		if e.how == "go" {
+			return true
+		}
+	}
+	return false
+}
+
+// resolveChans assigns the done / stop roles to the chan fields of Cache:
+// done = closed by the goroutine NewCache starts and received by Stop;
+// stop = received by that goroutine and closed by Stop. Names are a tie-break only.
+func (k *c15K) resolveChans(chans []string) {
+	if len(chans) == 0 {
+		return
+	}
+	done, stop := map[string]int{}, map[string]int{}
+	wgDone, wgWait := map[string]bool{}, map[string]bool{}
+	ctx := k.x.newCtx()
+	defer func() {
+		// no channel plays the done role: a WaitGroup field the goroutine Done()s and Stop Wait()s on does
+		if k.runF != "" && (done[k.runF] != 0 || len(wgDone) == 0) {
+			return
+		}
+		for f := range wgDone {
+			if wgWait[f] {
+				if k.stpF == "" || k.stpF == k.runF {
+					best := ""
+					for _, c := range chans {
+						if stop[c] != 0 {
+							best = c
+						}
+					}
+					k.stpF = best
+				}
+				k.runF, k.runWG = f, true
+			}
+		}
+	}()
+	for _, g := range k.goSites() {
+		k.x.walk(ctx, g.Tg.Fn, g.Env, nil, func(in ssa.Instruction, env *c15Env) {
+			if f := k.wgOp(in, "Done"); f != "" {
+				wgDone[f] = true
+			}
+			if f := k.closeField(in, env); f != "" {
+				done[f] |= 1
+			}
+			if f := k.recvField(in, env); f != "" {
+				stop[f] |= 1
+			}
+			if sel, ok := in.(*ssa.Select); ok {
+				for _, s := range sel.States {
+					if s.Dir == types.RecvOnly {
+						if f := k.chanField(s.Chan, env); f != "" {
+							stop[f] |= 1
+						}
+					}
+				}
+			}
+		}, nil)
+	}
+	if stopFn := k.p.FuncOpt("ttlcache", "Cache.Stop"); stopFn != nil {
+		k.x.walk(ctx, stopFn, nil, nil, func(in ssa.Instruction, env *c15Env) {
+			if f := k.wgOp(in, "Wait"); f != "" {
+				wgWait[f] = true
+			}
+			if f := k.closeField(in, env); f != "" {
+				stop[f] |= 2
+			}
+			if f := k.recvField(in, env); f != "" {
+				done[f] |= 2
+			}
+			if sel, ok := in.(*ssa.Select); ok {
+				for _, s := range sel.States {
+					if s.Dir == types.RecvOnly {
+						if f := k.chanField(s.Chan, env); f != "" {
+							done[f] |= 2
+						}
+					}
+				}
+			}
+		}, nil)
+	}
+	score := func(m map[string]int, f string) int { return m[f]&1 + m[f]>>1 }
+	pick := func(mine, other map[string]int, hint string) string {
+		best, bestN, tie := "", -1, false
+		for _, f := range chans {
+			n := score(mine, f) - score(other, f)
+			if n > bestN {
+				best, bestN, tie = f, n, false
+			} else if n == bestN {
+				tie = true
+			}
+		}
+		if bestN <= 0 || tie {
+			for _, f := range chans { // the name is only a tie-break
+				if strings.Contains(strings.ToLower(f), hint) {
+					return f
+				}
+			}
+			if bestN <= 0 || tie {
+				return ""
+			}
+		}
+		return best
+	}
+	sort.Strings(chans)
+	k.runF = pick(done, stop, "running")
+	k.stpF = pick(stop, done, "stop")
+	if k.runF == k.stpF {
+		k.runF, k.stpF = "", ""
+	}
+	if len(chans) == 2 {
+		// with exactly two channel fields one role determines the other
+		other := func(f string) string {
+			if chans[0] == f {
+				return chans[1]
+			}
+			return chans[0]
+		}
+		if k.runF == "" && k.stpF != "" {
+			k.runF = other(k.stpF)
+		} else if k.stpF == "" && k.runF != "" {
+			k.stpF = other(k.runF)
+		}
+	}
 }
 
 func c15NeedFields(n *types.Named, names ...string) {
@@ -127,8 +555,8 @@ func c15NeedFields(n *types.Named, names ...string) {
 	}
 }
 
-// mapCall: call is haxmap.Map.<name> on the map loaded from Cache.m.
-func (k *c15K) mapCall(in ssa.Instruction, name string) (*ssa.CallCommon, bool) {
+// mapCallE: in (in env) is haxmap.Map.<name> on the map loaded from the store field of Cache.
+func (k *c15K) mapCallE(in ssa.Instruction, env *c15Env, name string) (*ssa.CallCommon, bool) {
 	ci, ok := in.(ssa.CallInstruction)
 	if !ok {
 		return nil, false
@@ -144,38 +572,58 @@ func (k *c15K) mapCall(in ssa.Instruction, name string) (*ssa.CallCommon, bool) 
 	if len(cc.Args) == 0 {
 		return nil, false
 	}
-	if _, _, id, ok := k.x.fieldRead(cc.Args[0], nil); ok && id.Type == k.x.cfg.CacheT && id.Field == "m" {
+	if _, _, id, ok := k.x.fieldRead(cc.Args[0], env); ok && id.Type == k.x.cfg.CacheT && id.Field == k.mapF {
 		return cc, true
 	}
 	return nil, false
 }
 
-// family: fn, its closures and (transitively) the unexported in-package
-// functions it calls statically.
-func (k *c15K) family(fn *ssa.Function) []*ssa.Function {
-	seen := map[*ssa.Function]bool{}
-	var out []*ssa.Function
-	var add func(f *ssa.Function)
-	add = func(f *ssa.Function) {
-		f = origin(f)
-		if f == nil || seen[f] || len(f.Blocks) == 0 {
-			return
-		}
-		seen[f] = true
-		out = append(out, f)
-		for _, a := range f.AnonFuncs {
-			add(a)
-		}
-		allInstrs(f, func(in ssa.Instruction) {
-			if ci, ok := in.(ssa.CallInstruction); ok {
-				if g := staticCallee(ci); g != nil && g.Pkg != nil && g.Pkg.Pkg.Path() == k.pkg && !isExportedFunc(g) {
-					add(g)
-				}
-			}
-		})
+func (k *c15K) mapCall(in ssa.Instruction, name string) (*ssa.CallCommon, bool) {
+	return k.mapCallE(in, nil, name)
+}
+
+func c15ReadOnlyMapMethod(name string) bool {
+	switch name {
+	case "Get", "ForEach", "Len", "Fillrate", "Grow", "MarshalJSON":
+		return true
 	}
-	add(fn)
+	return false
+}
+
+// visited: the functions an API entry point can execute (following calls).
+func (k *c15K) visited(fn *ssa.Function) map[*ssa.Function]bool {
+	out := map[*ssa.Function]bool{origin(fn): true}
+	k.x.walk(k.x.newCtx(), fn, nil, nil, func(in ssa.Instruction, env *c15Env) {
+		out[origin(in.Parent())] = true
+	}, nil)
 	return out
+}
+
+func (k *c15K) family(fn *ssa.Function) []*ssa.Function {
+	var out []*ssa.Function
+	for f := range k.visited(fn) {
+		out = append(out, f)
+	}
+	sort.Slice(out, func(i, j int) bool { return FuncName(k.p, out[i]) < FuncName(k.p, out[j]) })
+	return out
+}
+
+// mustCheck reports the verdict of a must-pass-through obligation: OK, or —
+// when some return is reached without the event — VIOLATION if every call on
+// the way was followed, UNDECIDED otherwise.
+func (k *c15K) mustCheck(fn *ssa.Function, env *c15Env, ev func(ssa.Instruction, *c15Env) bool, rule, construct, okMsg string, badMsg func(where string) string) {
+	k.x.mustUnsure = false
+	ok, n, where := k.x.must(fn, env, ev, 0)
+	switch {
+	case n == 0:
+		k.r.Undecide("%s: %s has no return", construct, FuncName(k.p, fn))
+	case ok:
+		k.r.OK(rule, construct, k.p.Pos(fn.Pos()), okMsg)
+	case k.x.mustUnsure:
+		k.r.Undecide("%s: a return (at %s) is reached without the required step being visible, but a call on the way could not be followed", construct, k.p.Pos(where))
+	default:
+		k.r.Violation(rule, construct, k.p.Pos(fn.Pos()), badMsg(k.p.Pos(where)))
+	}
 }
 
 func liveBlock(b *ssa.BasicBlock) bool { return b.Index == 0 || len(b.Preds) > 0 }
@@ -200,9 +648,10 @@ type c15Hit struct {
 	Facts c15Set
 }
 
-// hits enumerates the returns of fn whose result #okIdx can be true, with the
-// facts that hold when it is; results forwarded from an in-module helper are
-// followed into the helper.
+// c15Hits enumerates the returns of fn whose result #okIdx can be true, with
+// the facts that hold when it is; results forwarded from a helper with several
+// returns are followed into the helper (single-return helpers are looked
+// through by strip).
 func c15Hits(x *c15X, ctx *c15Ctx, fn *ssa.Function, env *c15Env, okIdx int, pre c15Set, depth int) []c15Hit {
 	var out []c15Hit
 	for _, ret := range returnsOf(fn) {
@@ -218,17 +667,13 @@ func c15Hits(x *c15X, ctx *c15Ctx, fn *ssa.Function, env *c15Env, okIdx int, pre
 			}
 			if ex, ok := sv.(*ssa.Extract); ok && depth < 3 {
 				if call, ok := ex.Tuple.(*ssa.Call); ok {
-					if g := staticCallee(call); g != nil && x.p.InModule(g) && len(g.Blocks) > 0 {
-						nenv := &c15Env{params: map[*ssa.Parameter]ssa.Value{}, up: senv}
-						for i, pa := range g.Params {
-							if i < len(call.Call.Args) {
-								nenv.params[pa] = call.Call.Args[i]
-							}
-						}
+					ts, unk := x.callTargets(&call.Call, senv)
+					if !unk && len(ts) == 1 && x.inlinable(ts[0].Fn) && !x.onStack(senv, ts[0].Fn) {
+						nenv := x.activate(ts[0], call.Call.Args, senv, call, "call")
 						// the forwarded result is known on this path (e.g. already tested false)
 						f0, _ := ctx.factsWhen(rv, true, env, 0)
 						if pre0 := facts.union(f0); !pre0.contradictory() {
-							out = append(out, c15Hits(x, ctx, g, nenv, ex.Index, pre0, depth+1)...)
+							out = append(out, c15Hits(x, ctx, ts[0].Fn, nenv, ex.Index, pre0, depth+1)...)
 						}
 						continue
 					}
@@ -258,64 +703,44 @@ func lastBoolResult(fn *ssa.Function) int {
 	return -1
 }
 
-// readsField: some function of fns reads field (typ, f).
-func readsField(fns []*ssa.Function, typ, f string) bool {
-	found := false
-	for _, fn := range fns {
-		allInstrs(fn, func(in ssa.Instruction) {
-			switch t := in.(type) {
-			case *ssa.FieldAddr:
-				if id := fieldIDOfAddr(t); id.Type == typ && id.Field == f {
-					found = true
-				}
-			case *ssa.Field:
-				if id := fieldIDOfField(t); id.Type == typ && id.Field == f {
-					found = true
-				}
-			}
-		})
-	}
-	return found
-}
-
 func (k *c15K) checkGet() {
 	get := k.p.Func("ttlcache", "Cache.Get")
-	c15GetRule(k.p, k.r, k.x, get, "C15.U1-get-strict", func(call *ssa.Call) bool {
-		_, ok := k.mapCall(call, "Get")
+	c15GetRule(k.p, k.r, k.x, get, "C15.U1-get-strict", func(call *ssa.Call, env *c15Env) bool {
+		_, ok := k.mapCallE(call, env, "Get")
 		return ok
 	})
 }
 
 // c15GetRule is U1 for one getter: isLookup recognises the lookup call whose
 // result #0 is the entry.
-func c15GetRule(p *Prog, r *Report, x *c15X, get *ssa.Function, rule string, isLookup func(*ssa.Call) bool) {
+func c15GetRule(p *Prog, r *Report, x *c15X, get *ssa.Function, rule string, isLookup func(*ssa.Call, *c15Env) bool) {
 	fname := FuncName(p, get)
 	okIdx := lastBoolResult(get)
 	if okIdx < 0 {
 		r.Undecide("%s no longer has a boolean 'found' result", fname)
 		return
 	}
-	fam := []*ssa.Function{get}
-	allInstrs(get, func(in ssa.Instruction) {
-		if ci, ok := in.(ssa.CallInstruction); ok {
-			if g := staticCallee(ci); g != nil && p.InModule(g) && len(g.Blocks) > 0 {
-				fam = append(fam, g)
-			}
-		}
-	})
+	ctx := x.newCtx()
+	famSet := map[*ssa.Function]bool{origin(get): true}
 	nLookup := 0
-	for _, f := range fam {
-		allInstrs(f, func(in ssa.Instruction) {
-			if call, ok := in.(*ssa.Call); ok && isLookup(call) {
-				nLookup++
-			}
-		})
+	lookups := map[*ssa.Call]bool{}
+	unresolved := ""
+	x.walk(ctx, get, nil, nil, func(in ssa.Instruction, env *c15Env) {
+		famSet[origin(in.Parent())] = true
+		if call, ok := in.(*ssa.Call); ok && isLookup(call, env) {
+			nLookup++
+			lookups[call] = true
+		}
+	}, func(in ssa.Instruction, env *c15Env) { unresolved = p.Pos(instrPos(in)) })
+	var fam []*ssa.Function
+	for f := range famSet {
+		fam = append(fam, f)
 	}
+	sort.Slice(fam, func(i, j int) bool { return FuncName(p, fam[i]) < FuncName(p, fam[j]) })
 	if nLookup == 0 {
-		r.Undecide("%s: no lookup on the cache's map found (anchor moved)", fname)
+		r.Undecide("%s: no lookup on the cache's map found in it or in the functions it calls (anchor moved)", fname)
 		return
 	}
-	ctx := x.newCtx()
 	hits := c15Hits(x, ctx, get, nil, okIdx, c15Set{}, 0)
 	if len(hits) == 0 {
 		r.Undecide("%s: no return that can report a hit was found", fname)
@@ -330,9 +755,8 @@ func c15GetRule(p *Prog, r *Report, x *c15X, get *ssa.Function, rule string, isL
 			return false
 		}
 		call, ok := ex.Tuple.(*ssa.Call)
-		return ok && isLookup(call)
+		return ok && lookups[call]
 	}
-	// group the path variants by return instruction
 	var order []*ssa.Return
 	byRet := map[*ssa.Return][]c15Hit{}
 	for _, h := range hits {
@@ -368,8 +792,12 @@ func c15GetRule(p *Prog, r *Report, x *c15X, get *ssa.Function, rule string, isL
 		if known == "" {
 			known = "nothing"
 		}
-		if len(ctx.Opaque) > 0 || !decodable {
-			r.Undecide("%s: the expiry is used in a way the decoder does not understand (%s %s); facts on the undecided path: %s", construct, strings.Join(ctx.Opaque, "; "), whyNot, known)
+		if len(ctx.Opaque) > 0 || !decodable || unresolved != "" {
+			why := strings.Join(ctx.Opaque, "; ") + " " + whyNot
+			if unresolved != "" {
+				why += " a call through an unresolved func value at " + unresolved
+			}
+			r.Undecide("%s: the expiry is used in a way the decoder does not understand (%s); facts on the undecided path: %s", construct, strings.TrimSpace(why), known)
 			continue
 		}
 		var rel []c15Fact
@@ -392,9 +820,10 @@ func c15GetRule(p *Prog, r *Report, x *c15X, get *ssa.Function, rule string, isL
 			}
 			switch {
 			case !fromLookup(e):
-				msg = "the expiry compared is not the one of the entry looked up in this call"
+				undec = true
+				msg = "the expiry compared could not be traced to the entry looked up in this call"
 			case o.Kind == c15WallNow:
-				msg = "the expiry is compared with time.Now() instead of the cache's clock (Set stamps the expiry from Cache.clock): expired entries are hits whenever the two clocks differ"
+				msg = "the expiry is compared with time.Now() instead of the cache's clock (Set stamps the expiry from the cache clock): expired entries are hits whenever the two clocks differ"
 			case o.Kind == c15Now && o.Off < 0:
 				msg = fmt.Sprintf("the expiry is compared with clock.Now() shifted back by %d ns: entries stay hits after their TTL has elapsed", -o.Off)
 			case o.Kind == c15Now && f.Op == ">=" && expLeft:
@@ -419,66 +848,39 @@ func c15GetRule(p *Prog, r *Report, x *c15X, get *ssa.Function, rule string, isL
 
 // ------------------------------------------------------------------ U2 Set
 
+func (k *c15K) isStoreCall(call *ssa.Call, env *c15Env) bool {
+	_, ok := k.mapCallE(call, env, "Set")
+	return ok
+}
+
 func (k *c15K) checkSet() {
 	set := k.p.Func("ttlcache", "Cache.Set")
 	fname := FuncName(k.p, set)
-	isStore := func(call *ssa.Call) bool { _, ok := k.mapCall(call, "Set"); return ok }
-
-	// every returning path stores
-	ok, n, where := c15Must(k.p, set, func(in ssa.Instruction) bool {
+	k.mustCheck(set, nil, func(in ssa.Instruction, env *c15Env) bool {
 		call, isCall := in.(*ssa.Call)
-		return isCall && isStore(call)
-	}, 0)
-	if n == 0 {
-		k.r.Undecide("%s has no return", fname)
-	} else {
-		k.r.Check(ok, "C15.U2-set-store", fname+" stores on every path", k.p.Pos(set.Pos()),
-			"every returning path of Set calls Map.Set on Cache.m",
-			"Set can return (at "+where+") without storing the new entry: a later Get returns the superseded value (or a miss) instead of the most recently Set one")
-	}
-	c15CapRule(k.p, k.r, k.x, set, "C15.U2-set-cap", "C15.U2-set-expiry", isStore)
-
-	// the stored value is Set's value parameter
-	allInstrs(set, func(in ssa.Instruction) {
-		call, isCall := in.(*ssa.Call)
-		if !isCall || !isStore(call) {
-			return
-		}
-		construct := fname + " stores its value argument"
-		vv, nVal, plain := compositeField(call.Call.Args[len(call.Call.Args)-1], "val")
-		switch {
-		case !plain || nVal > 1:
-			k.r.Undecide("%s: the entry passed to Map.Set is not a plain composite literal", construct)
-		case nVal == 0:
-			k.r.Violation("C15.U2-set-value", construct, k.p.Pos(call.Pos()), "the entry stored by Set never receives the caller's value (field val is left zero): Get reports a hit with a value that is not the one most recently Set")
-		default:
-			sv, _ := k.x.strip(vv, nil)
-			if pa, ok := sv.(*ssa.Parameter); ok && pa.Parent() == set {
-				k.r.OK("C15.U2-set-value", construct, k.p.Pos(call.Pos()), "entry.val is Set's value parameter")
-			} else {
-				k.r.Undecide("%s: entry.val is not Set's value parameter", construct)
-			}
-		}
-	})
+		return isCall && k.isStoreCall(call, env)
+	}, "C15.U2-set-store", fname+" stores on every path",
+		"every returning path of Set stores into the map (directly or through the helpers it calls)",
+		func(where string) string {
+			return "Set can return (at " + where + ") without storing the new entry: a later Get returns the superseded value (or a miss) instead of the most recently Set one"
+		})
+	sites := c15CapRule(k.p, k.r, k.x, set, "C15.U2-set-cap", "C15.U2-set-expiry", "C15.U2-set-value", k.valF, k.isStoreCall)
 
 	// ttl <= 0 (outside the statement's quantifier): NOTE only
 	ctx := k.x.newCtx()
-	ttl := c15TTLParam(set)
-	allInstrs(set, func(in ssa.Instruction) {
-		call, isCall := in.(*ssa.Call)
-		if !isCall || !isStore(call) || ttl == nil {
-			return
-		}
-		guarded := true
-		for _, f := range ctx.paths(call.Block(), nil) {
-			if !f.positive(isKey(k.x.term(ttl, nil).Key)) {
-				guarded = false
+	if ttl := c15TTLParam(set); ttl != nil {
+		for _, s := range sites {
+			guarded := true
+			for _, f := range ctx.at(s.In.Block(), s.Env) {
+				if !f.positive(isKey(k.x.term(ttl, nil).Key)) {
+					guarded = false
+				}
+			}
+			if !guarded {
+				k.r.Note("C15: %s stores an entry without a ttl > 0 test on every path (at %s) — not armed: ttl<=0 is outside the property's quantifier (ttl 1..N) and such an entry is never a hit", fname, k.p.Pos(instrPos(s.In)))
 			}
 		}
-		if !guarded {
-			k.r.Note("C15: %s stores an entry without a dominating ttl > 0 test (at %s) — not armed: ttl<=0 is outside the property's quantifier (ttl 1..N) and such an entry is never a hit", fname, k.p.Pos(call.Pos()))
-		}
-	})
+	}
 }
 
 func c15TTLParam(fn *ssa.Function) *ssa.Parameter {
@@ -500,8 +902,9 @@ func c15TTLParam(fn *ssa.Function) *ssa.Parameter {
 }
 
 // compositeField: v is the value of a struct built field-by-field in a local
-// (composite literal); returns the value stored to field name and the number
-// of stores to it. plain=false if v is not such a composite.
+// (composite literal / var + field assignments); returns the value stored to
+// field name and the number of stores to it. plain=false if v is not such a
+// composite.
 func compositeField(v ssa.Value, name string) (val ssa.Value, n int, plain bool) {
 	u, ok := v.(*ssa.UnOp)
 	if !ok || u.Op != token.MUL {
@@ -537,107 +940,132 @@ func compositeField(v ssa.Value, name string) (val ssa.Value, n int, plain bool)
 
 const c15Second = int64(1000000000)
 
-// c15CapRule is U2 (expiry formula + cap) for one setter.
-func c15CapRule(p *Prog, r *Report, x *c15X, set *ssa.Function, capRule, expRule string, isStore func(*ssa.Call) bool) {
+// c15CapRule is U2 (expiry formula + cap + value) for one setter; the store
+// sites are looked for in the setter and in everything it calls. Returns the
+// store sites.
+func c15CapRule(p *Prog, r *Report, x *c15X, set *ssa.Function, capRule, expRule, valRule, valF string, isStore func(*ssa.Call, *c15Env) bool) []c15Site {
 	fname := FuncName(p, set)
 	ttl := c15TTLParam(set)
 	if ttl == nil {
 		r.Undecide("%s no longer has exactly one int64 (ttl) parameter", fname)
-		return
+		return nil
 	}
 	ttlKey := x.term(ttl, nil).Key
 	isTTL, isMax := isKey(ttlKey), isKind(c15MaxTTL)
-	var stores []*ssa.Call
-	allInstrs(set, func(in ssa.Instruction) {
-		if call, ok := in.(*ssa.Call); ok && isStore(call) {
-			stores = append(stores, call)
+	ctx := x.newCtx()
+	var stores []c15Site
+	unresolved := ""
+	x.walk(ctx, set, nil, nil, func(in ssa.Instruction, env *c15Env) {
+		if call, ok := in.(*ssa.Call); ok && isStore(call, env) {
+			stores = append(stores, c15Site{in, env})
+		} else if ok {
+			// a library call named like a store whose receiver could not be tied to the cache
+			if obj := calleeObj(call); obj != nil && !x.p.InModule(staticCallee(call)) && (obj.Name() == "Set" || obj.Name() == "Store" || obj.Name() == "Swap") && obj.Type().(*types.Signature).Recv() != nil {
+				unresolved = p.Pos(instrPos(in))
+			}
 		}
-	})
+	}, func(in ssa.Instruction, env *c15Env) { unresolved = p.Pos(instrPos(in)) })
 	if len(stores) == 0 {
-		r.Violation(expRule, fname+" expiry", p.Pos(set.Pos()), "Set no longer stores an entry into the cache's map")
-		return
+		if unresolved != "" {
+			r.Undecide("%s: no store into the map found, and a call through a func value at %s could not be followed", fname, unresolved)
+		} else {
+			r.Violation(expRule, fname+" expiry", p.Pos(set.Pos()), "Set no longer stores an entry into the cache's map (neither directly nor in any function it calls)")
+		}
+		return nil
 	}
-	for si, st := range stores {
+	for si, site := range stores {
+		st := site.In.(*ssa.Call)
 		sfx := ""
 		if len(stores) > 1 {
 			sfx = fmt.Sprintf(" (store #%d)", si+1)
 		}
 		pos := p.Pos(st.Pos())
 		entry := st.Call.Args[len(st.Call.Args)-1]
-		ev, nExp, ok := compositeField(entry, x.cfg.ExpF)
-		if !ok || nExp != 1 {
-			r.Undecide("%s: the entry passed to the store is not a composite literal whose %s field can be followed", fname, x.cfg.ExpF)
-			continue
-		}
-		ctx := x.newCtx()
 		expOK, expBad, expUndec := 0, "", ""
-		type leafT struct {
-			c  c15Case
-			by string
-		}
-		var leaves []leafT
-		var expCases []c15Case
-		for _, base := range ctx.paths(st.Block(), nil) {
-			expCases = append(expCases, ctx.cases(ev, nil, base, 0)...)
-		}
-		for _, ec := range expCases {
-			name, args, aenv, isTime := x.timeMethod(ec.V, ec.Env)
-			if !isTime || name != "Add" || len(args) != 2 {
-				if t := x.term(ec.V, ec.Env); t.Kind == c15Now || t.Kind == c15WallNow {
-					expBad = "the stored expiry is the current time itself: the TTL is not added"
-				} else if t.Kind == c15Exp {
-					known := strings.Join(ec.Facts.list(), ", ")
-					if known == "" {
-						known = "nothing"
-					}
-					expBad = "on some path the expiry stored with the new value is not clock.Now()+T*time.Second but the expiry read from an existing entry (kept / later-of / earlier-of; known on that path: " + known + "): the value most recently Set then lives for a time other than its own TTL — e.g. Set(k,v1,10); Set(k,v2,2) and Get still returns v2 after 2 s (or, if the older expiry is earlier, Cleanup removes v2 before its TTL has elapsed)"
-				} else {
-					expUndec = "the stored expiry is not of the form <time>.Add(<duration>)"
-				}
-				continue
-			}
-			bt := x.term(args[0], aenv)
-			switch {
-			case bt.Kind == c15WallNow:
-				expBad = "the expiry is stamped from time.Now() instead of the cache's clock (Get compares with Cache.clock): entries outlive or undershoot their TTL whenever the clocks differ"
-				continue
-			case bt.Kind != c15Now || bt.Off != 0:
-				expUndec = "the base of the expiry (" + bt.String() + ") is not a reading of the cache clock taken in Set"
-				continue
-			}
-			for _, dc := range ctx.cases(args[1], aenv, ec.Facts, 0) {
-				dv, denv := x.strip(dc.V, dc.Env)
-				mul, isMul := dv.(*ssa.BinOp)
-				if !isMul || mul.Op != token.MUL {
-					if t := x.term(dv, denv); t.Key == ttlKey || t.Kind == c15MaxTTL {
-						expBad = "the duration added to Now() is the TTL itself, not TTL*time.Second: the TTL is taken as nanoseconds and live entries expire at once (Cleanup removes entries whose TTL has not elapsed)"
-					} else {
-						expUndec = "the duration added to Now() is not of the form T*time.Second"
-					}
+		valOK, valBad, valUndec := 0, "", ""
+		var leaves []c15Case
+		for _, base := range ctx.at(st.Block(), site.Env) {
+			for _, en := range ctx.cases(entry, site.Env, base, 0) {
+				ev, nExp, plain := compositeField(en.V, x.cfg.ExpF)
+				if !plain || nExp != 1 {
+					expUndec = "the entry passed to the store is not a composite value whose expiry field can be followed"
 					continue
 				}
-				var unit *ssa.Const
-				var tv ssa.Value
-				if kc, ok := mul.Y.(*ssa.Const); ok {
-					unit, tv = kc, mul.X
-				} else if kc, ok := mul.X.(*ssa.Const); ok {
-					unit, tv = kc, mul.Y
-				}
-				if unit == nil || unit.Value == nil || unit.Value.Kind() != constant.Int {
-					expUndec = "the duration added to Now() is a product without a constant unit"
-					continue
-				}
-				if u, _ := constant.Int64Val(unit.Value); u != c15Second {
-					if u > c15Second {
-						expBad = fmt.Sprintf("the TTL is multiplied by %d ns instead of time.Second: entries stay hits long after TTL seconds have elapsed", u)
-					} else {
-						expBad = fmt.Sprintf("the TTL is multiplied by %d ns instead of time.Second: entries expire (and are removed by Cleanup) before their TTL has elapsed", u)
+				// value
+				if valF != "" {
+					vv, nVal, _ := compositeField(en.V, valF)
+					switch {
+					case nVal == 0:
+						valBad = "the entry stored by Set never receives the caller's value (its value field is left zero): Get reports a hit with a value that is not the one most recently Set"
+					case nVal > 1:
+						valUndec = "the value field of the stored entry is assigned more than once"
+					default:
+						sv, _ := x.strip(vv, en.Env)
+						if pa, ok := sv.(*ssa.Parameter); ok && pa.Parent() == set {
+							valOK++
+						} else {
+							valUndec = "the value field of the stored entry is not Set's value parameter"
+						}
 					}
-					continue
 				}
-				expOK++
-				for _, tc := range ctx.cases(tv, denv, dc.Facts, 0) {
-					leaves = append(leaves, leafT{tc, ""})
+				for _, ec := range ctx.cases(ev, en.Env, en.Facts, 0) {
+					name, args, aenv, isTime := x.timeMethod(ec.V, ec.Env)
+					if !isTime || name != "Add" || len(args) != 2 {
+						if t := x.term(ec.V, ec.Env); t.Kind == c15Now || t.Kind == c15WallNow {
+							expBad = "the stored expiry is the current time itself: the TTL is not added"
+						} else if t.Kind == c15Exp {
+							known := strings.Join(ec.Facts.list(), ", ")
+							if known == "" {
+								known = "nothing"
+							}
+							expBad = "on some path the expiry stored with the new value is not clock.Now()+T*time.Second but the expiry read from an existing entry (kept / later-of / earlier-of; known on that path: " + known + "): the value most recently Set then lives for a time other than its own TTL — e.g. Set(k,v1,10); Set(k,v2,2) and Get still returns v2 after 2 s (or, if the older expiry is earlier, Cleanup removes v2 before its TTL has elapsed)"
+						} else {
+							expUndec = "the stored expiry is not of the form <time>.Add(<duration>)"
+						}
+						continue
+					}
+					bt := x.term(args[0], aenv)
+					switch {
+					case bt.Kind == c15WallNow:
+						expBad = "the expiry is stamped from time.Now() instead of the cache's clock (Get compares with the cache clock): entries outlive or undershoot their TTL whenever the clocks differ"
+						continue
+					case bt.Kind != c15Now || bt.Off != 0:
+						expUndec = "the base of the expiry (" + bt.String() + ") is not a reading of the cache clock taken in Set"
+						continue
+					}
+					for _, dc := range ctx.cases(args[1], aenv, ec.Facts, 0) {
+						dv, denv := x.strip(dc.V, dc.Env)
+						mul, isMul := dv.(*ssa.BinOp)
+						if !isMul || mul.Op != token.MUL {
+							if t := x.term(dv, denv); t.Key == ttlKey || t.Kind == c15MaxTTL {
+								expBad = "the duration added to Now() is the TTL itself, not TTL*time.Second: the TTL is taken as nanoseconds and live entries expire at once (Cleanup removes entries whose TTL has not elapsed)"
+							} else {
+								expUndec = "the duration added to Now() is not of the form T*time.Second"
+							}
+							continue
+						}
+						var unit *ssa.Const
+						var tv ssa.Value
+						if kc, ok := mul.Y.(*ssa.Const); ok {
+							unit, tv = kc, mul.X
+						} else if kc, ok := mul.X.(*ssa.Const); ok {
+							unit, tv = kc, mul.Y
+						}
+						if unit == nil || unit.Value == nil || unit.Value.Kind() != constant.Int {
+							expUndec = "the duration added to Now() is a product without a constant unit"
+							continue
+						}
+						if u, _ := constant.Int64Val(unit.Value); u != c15Second {
+							if u > c15Second {
+								expBad = fmt.Sprintf("the TTL is multiplied by %d ns instead of time.Second: entries stay hits long after TTL seconds have elapsed", u)
+							} else {
+								expBad = fmt.Sprintf("the TTL is multiplied by %d ns instead of time.Second: entries expire (and are removed by Cleanup) before their TTL has elapsed", u)
+							}
+							continue
+						}
+						expOK++
+						leaves = append(leaves, ctx.cases(tv, denv, dc.Facts, 0)...)
+					}
 				}
 			}
 		}
@@ -649,16 +1077,26 @@ func c15CapRule(p *Prog, r *Report, x *c15X, set *ssa.Function, capRule, expRule
 		case expOK > 0:
 			r.OK(expRule, fname+" expiry"+sfx, pos, "expiry = clock.Now().Add(T*time.Second) with Now() read from the cache clock in Set")
 		}
+		if valF != "" {
+			construct := fname + " stores its value argument" + sfx
+			switch {
+			case valBad != "":
+				r.Violation(valRule, construct, pos, valBad)
+			case valUndec != "":
+				r.Undecide("%s: %s", construct, valUndec)
+			case valOK > 0:
+				r.OK(valRule, construct, pos, "the stored entry's value field is Set's value parameter")
+			}
+		}
 		// cap: aggregate the path cases by the value that reaches the expiry
 		type agg struct {
-			n    int
-			bad  string
-			seen bool
+			n   int
+			bad string
 		}
 		kinds := map[string]*agg{"ttl": {}, "maxTTL": {}, "min": {}}
 		for _, lf := range leaves {
-			t := x.term(lf.c.V, lf.c.Env)
-			f := lf.c.Facts
+			t := x.term(lf.V, lf.Env)
+			f := lf.Facts
 			known := strings.Join(f.list(), ", ")
 			if known == "" {
 				known = "nothing"
@@ -677,8 +1115,8 @@ func c15CapRule(p *Prog, r *Report, x *c15X, set *ssa.Function, capRule, expRule
 					a.bad = known
 				}
 			default:
-				if call, ok := lf.c.V.(*ssa.Call); ok && builtinName(call) == "min" && len(call.Call.Args) == 2 {
-					a, b := x.term(call.Call.Args[0], lf.c.Env), x.term(call.Call.Args[1], lf.c.Env)
+				if call, ok := lf.V.(*ssa.Call); ok && builtinName(call) == "min" && len(call.Call.Args) == 2 {
+					a, b := x.term(call.Call.Args[0], lf.Env), x.term(call.Call.Args[1], lf.Env)
 					if (a.Key == ttlKey && b.Kind == c15MaxTTL) || (b.Key == ttlKey && a.Kind == c15MaxTTL) {
 						ag := kinds["min"]
 						ag.n++
@@ -688,7 +1126,7 @@ func c15CapRule(p *Prog, r *Report, x *c15X, set *ssa.Function, capRule, expRule
 						continue
 					}
 				}
-				r.Undecide("%s%s: the TTL reaching the expiry (%s) is neither the ttl parameter nor Cache.maxTTL", fname, sfx, t.String())
+				r.Undecide("%s%s: the TTL reaching the expiry (%s) is neither the ttl parameter nor the cap field of the cache", fname, sfx, t.String())
 			}
 		}
 		if a := kinds["ttl"]; a.n > 0 {
@@ -702,70 +1140,105 @@ func c15CapRule(p *Prog, r *Report, x *c15X, set *ssa.Function, capRule, expRule
 				"maxTTL is used as the TTL on a path where `maxTTL > 0` and `ttl >= maxTTL` are not both established (known on that path: "+a.bad+"): an entry Set with a smaller ttl outlives it (late hit), or with MaxTTL unset the entry expires at once and Cleanup removes it although its TTL has not elapsed")
 		}
 		if a := kinds["min"]; a.n > 0 {
-			r.Check(a.bad == "", capRule, fname+" T=min(ttl,maxTTL)"+sfx, pos, "min(ttl,maxTTL) used only where maxTTL>0",
+			// min(ttl,maxTTL) stands for both cases of the cap
+			r.Check(a.bad == "", capRule, fname+" T=ttl"+sfx, pos, "min(ttl,maxTTL) used only where maxTTL>0",
 				"min(ttl, maxTTL) reaches the expiry on a path where maxTTL > 0 is not established (known on that path: "+a.bad+"): with MaxTTL unset every entry gets a non-positive TTL and is removed although its TTL has not elapsed")
+			r.Check(a.bad == "", capRule, fname+" T=maxTTL"+sfx, pos, "min(ttl,maxTTL) used only where maxTTL>0",
+				"min(ttl, maxTTL) reaches the expiry on a path where maxTTL > 0 is not established (known on that path: "+a.bad+")")
 		}
 	}
+	return stores
 }
 
 func (k *c15K) checkWire() {
 	nc := k.p.Func("ttlcache", "NewCache")
-	construct := "ttlcache.NewCache Cache.maxTTL <- CacheOptions.MaxTTL"
-	n, good := 0, false
-	var pos token.Pos
+	maxF := k.x.cfg.MaxF
+	construct := "ttlcache.NewCache cap field <- CacheOptions.MaxTTL"
+	if maxF == "" {
+		// the option may live somewhere else than in an integer field of Cache (an embedded options struct, …)
+		readsOpt := false
+		for _, fn := range k.p.FuncsOfPkg("ttlcache") {
+			if origin(fn) == origin(nc) {
+				continue
+			}
+			allInstrs(fn, func(in ssa.Instruction) {
+				switch t := in.(type) {
+				case *ssa.FieldAddr:
+					if id := fieldIDOfAddr(t); id.Type == k.optsT && id.Field == "MaxTTL" {
+						readsOpt = true
+					}
+				case *ssa.Field:
+					if id := fieldIDOfField(t); id.Type == k.optsT && id.Field == "MaxTTL" {
+						readsOpt = true
+					}
+				}
+			})
+		}
+		if readsOpt {
+			k.r.Undecide("%s: CacheOptions.MaxTTL is read outside NewCache but not through an integer field of Cache; this way of keeping the cap is not analysed", construct)
+			return
+		}
+		k.r.Violation("C15.U2-wire-maxttl", construct, k.p.Pos(nc.Pos()), "Cache has no integer field that receives CacheOptions.MaxTTL: the configured cap is ignored and entries Set with ttl > MaxTTL stay hits after MaxTTL seconds")
+		return
+	}
+	inNew := k.visited(nc)
+	// fields the rules rely on must not be rewritten after construction
 	for _, fn := range k.p.FuncsOfPkg("ttlcache") {
+		if inNew[origin(fn)] {
+			continue
+		}
 		allInstrs(fn, func(in ssa.Instruction) {
 			st, ok := in.(*ssa.Store)
 			if !ok {
 				return
 			}
-			fa, ok := st.Addr.(*ssa.FieldAddr)
-			if !ok {
-				return
-			}
-			id := fieldIDOfAddr(fa)
-			if id.Type != k.x.cfg.CacheT {
-				return
-			}
-			if origin(fn) != origin(nc) {
-				switch id.Field {
-				case "maxTTL", "clock", "m":
+			if fa, ok := st.Addr.(*ssa.FieldAddr); ok {
+				if id := fieldIDOfAddr(fa); id.Type == k.x.cfg.CacheT && (id.Field == maxF || id.Field == k.x.cfg.ClockF || id.Field == k.mapF) {
 					k.r.Undecide("Cache.%s is written outside NewCache (in %s): the facts about it used by the rules may be stale", id.Field, FuncName(k.p, fn))
-				}
-				return
-			}
-			if id.Field != "maxTTL" {
-				return
-			}
-			n++
-			pos = st.Pos()
-			for _, cs := range k.x.newCtx().cases(st.Val, nil, c15Set{}, 0) {
-				if _, _, rid, ok := k.x.fieldRead(cs.V, cs.Env); ok && rid.Type == k.pkg+".CacheOptions" && rid.Field == "MaxTTL" {
-					good = true
-				} else if kc, ok := cs.V.(*ssa.Const); ok && kc.Value != nil {
-					// a constant on some path (e.g. normalising negatives to 0) is fine
-				} else {
-					good = false
-					k.r.Undecide("%s: the value stored is not CacheOptions.MaxTTL", construct)
 				}
 			}
 		})
 	}
-	if n == 0 {
-		k.r.Violation("C15.U2-wire-maxttl", construct, k.p.Pos(nc.Pos()), "NewCache never stores CacheOptions.MaxTTL into Cache.maxTTL: the configured cap is ignored and entries Set with ttl > MaxTTL stay hits after MaxTTL seconds")
-		return
-	}
-	if good {
+	n, good, undec := 0, false, ""
+	var pos token.Pos
+	ctx := k.x.newCtx()
+	k.x.walk(ctx, nc, nil, nil, func(in ssa.Instruction, env *c15Env) {
+		st, ok := in.(*ssa.Store)
+		if !ok {
+			return
+		}
+		fa, ok := st.Addr.(*ssa.FieldAddr)
+		if !ok {
+			return
+		}
+		if id := fieldIDOfAddr(fa); id.Type != k.x.cfg.CacheT || id.Field != maxF {
+			return
+		}
+		n++
+		pos = st.Pos()
+		for _, cs := range ctx.cases(st.Val, env, c15Set{}, 0) {
+			if _, _, rid, ok := k.x.fieldRead(cs.V, cs.Env); ok && rid.Type == k.optsT && rid.Field == "MaxTTL" {
+				good = true
+			} else if kc, ok := cs.V.(*ssa.Const); ok && kc.Value != nil {
+				// a constant on some path (e.g. normalising negatives to 0) is fine
+			} else {
+				undec = "the value stored into Cache." + maxF + " is not CacheOptions.MaxTTL"
+			}
+		}
+	}, nil)
+	switch {
+	case n == 0:
+		k.r.Violation("C15.U2-wire-maxttl", construct, k.p.Pos(nc.Pos()), "NewCache (and the functions it calls) never stores CacheOptions.MaxTTL into Cache."+maxF+", the field Set caps with: the configured cap is ignored and entries Set with ttl > MaxTTL stay hits after MaxTTL seconds")
+	case undec != "":
+		k.r.Undecide("%s: %s", construct, undec)
+	case good:
 		k.r.OK("C15.U2-wire-maxttl", construct, k.p.Pos(pos), "NewCache copies the option into the field Set reads")
+	default:
+		k.r.Undecide("%s: only constants are stored into Cache.%s", construct, maxF)
 	}
 }
 
-// -------------------------------------------------------------- U3 Cleanup
-
-type c15KeySrc struct {
-	V  ssa.Value       // the key value added
-	At ssa.Instruction // where it is added / deleted
-}
+// -------------------------------------------- U3 Cleanup / U5 Reset (deletes)
 
 // varargsElems: v is `slice(new [n]T)[:]`; returns the element values stored.
 func varargsElems(v ssa.Value) ([]ssa.Value, bool) {
@@ -871,22 +1344,126 @@ func c15CellStores(a *ssa.Alloc) (stores []*ssa.Store, ok bool) {
 	return
 }
 
-// keySources lists where the keys of slice value v (an argument of a delete)
-// come from. unrec != "" if the shape is not understood.
-func keySources(v ssa.Value, at ssa.Instruction) (src []c15KeySrc, unrec string) {
-	if elems, ok := varargsElems(v); ok {
-		for _, e := range elems {
-			src = append(src, c15KeySrc{e, at})
+// c15KeyAdd: the point where a key is committed to deletion (appended to the
+// slice later deleted, or passed to a delete directly), in its activation.
+type c15KeyAdd struct {
+	Site c15Site
+	Key  ssa.Value
+}
+
+type c15Del struct {
+	Site  c15Site
+	Adds  []c15KeyAdd
+	Unrec string
+	Empty bool // a key slice nothing is appended to
+}
+
+type c15DelAnalysis struct {
+	Dels       []c15Del
+	Contexts   map[ssa.Instruction][]*c15Env
+	Fns        map[*ssa.Function]bool
+	Unresolved []string // calls through func values that could not be followed
+	ForEach    []c15Site
+}
+
+// isForEachCallback: env is the activation of a callback handed to Map.ForEach on the store.
+func (k *c15K) forEachOf(env *c15Env) bool {
+	if env == nil || env.how != "callback" || env.via == nil {
+		return false
+	}
+	_, ok := k.mapCallE(env.via, env.up, "ForEach")
+	return ok
+}
+
+// analyseDeletes walks root and resolves, for every delete on the store, where
+// its keys are committed.
+func (k *c15K) analyseDeletes(ctx *c15Ctx, root *ssa.Function, renv *c15Env) *c15DelAnalysis {
+	a := &c15DelAnalysis{Contexts: map[ssa.Instruction][]*c15Env{}, Fns: map[*ssa.Function]bool{origin(root): true}}
+	var dels []c15Site
+	k.x.walk(ctx, root, renv, nil, func(in ssa.Instruction, env *c15Env) {
+		a.Fns[origin(in.Parent())] = true
+		if _, isCall := in.(ssa.CallInstruction); isCall {
+			a.Contexts[in] = append(a.Contexts[in], env)
+			if _, ok := k.mapCallE(in, env, "Del"); ok {
+				dels = append(dels, c15Site{in, env})
+			} else if _, ok := k.mapCallE(in, env, "GetAndDel"); ok {
+				dels = append(dels, c15Site{in, env})
+			} else if _, ok := k.mapCallE(in, env, "ForEach"); ok {
+				a.ForEach = append(a.ForEach, c15Site{in, env})
+			}
 		}
-		return
+	}, func(in ssa.Instruction, env *c15Env) {
+		a.Unresolved = append(a.Unresolved, k.p.Pos(instrPos(in)))
+	})
+	for _, d := range dels {
+		cc := d.Site().Common()
+		info := c15Del{Site: d}
+		if calleeObj(d.Site()).Name() == "GetAndDel" {
+			info.Adds = []c15KeyAdd{{d, cc.Args[1]}}
+		} else {
+			info.Adds, info.Unrec, info.Empty = k.keyAdds(a, cc.Args[1], d.Env, d, 0)
+		}
+		a.Dels = append(a.Dels, info)
 	}
-	cell := c15CellOf(v)
-	if cell == nil {
-		return nil, "the key slice is neither a literal argument list nor a local slice variable"
+	return a
+}
+
+func (s c15Site) Site() ssa.CallInstruction { return s.In.(ssa.CallInstruction) }
+
+// keyAdds resolves the slice value v (in env) handed to a delete at site into
+// the places where its elements are committed.
+func (k *c15K) keyAdds(a *c15DelAnalysis, v ssa.Value, env *c15Env, site c15Site, depth int) (adds []c15KeyAdd, unrec string, empty bool) {
+	if depth > 4 {
+		return nil, "the key slice is built too indirectly", false
 	}
-	stores, ok := c15CellStores(cell)
-	if !ok {
-		return nil, "the address of the key slice variable escapes"
+	sv, senv := k.x.strip(v, env)
+	if elems, ok := varargsElems(sv); ok {
+		at := site
+		if sl, isSl := sv.(*ssa.Slice); isSl {
+			at = c15Site{sl, senv}
+		}
+		for _, e := range elems {
+			// a key read back from a collected slice: for _, k := range keys { Del(k) }
+			if u, ok := e.(*ssa.UnOp); ok && u.Op == token.MUL {
+				if ia, ok := u.X.(*ssa.IndexAddr); ok {
+					inner, un, _ := k.keyAdds(a, ia.X, senv, site, depth+1)
+					if un == "" {
+						adds = append(adds, inner...)
+						continue
+					}
+				}
+			}
+			adds = append(adds, c15KeyAdd{at, e})
+		}
+		return adds, "", false
+	}
+	cell := c15CellOf(sv)
+	var slot FieldID
+	var stores []*ssa.Store
+	sameSlot := func(v ssa.Value) bool {
+		if cell != nil {
+			return c15CellOf(v) == cell
+		}
+		id, _, ok := fieldOfValue(v)
+		_, isLoad := v.(*ssa.UnOp)
+		return ok && isLoad && id == slot
+	}
+	if cell != nil {
+		var ok bool
+		stores, ok = c15CellStores(cell)
+		if !ok {
+			return nil, "the address of the key slice variable escapes", false
+		}
+	} else if id, _, ok := fieldOfValue(sv); ok && id.Type != "" && id.Type != k.x.cfg.CacheT {
+		// the keys live in a field of a helper object (a collector struct):
+		// every store to that field anywhere in the package is considered
+		if _, isLoad := sv.(*ssa.UnOp); !isLoad {
+			return nil, "the key slice is not read from a variable", false
+		}
+		slot = id
+		stores = k.x.fieldStores(id)
+	} else {
+		return nil, "the key slice is neither an argument list, a local slice variable, a field of a helper object nor the result of a helper returning one", false
 	}
 	for _, st := range stores {
 		switch t := st.Val.(type) {
@@ -897,132 +1474,135 @@ func keySources(v ssa.Value, at ssa.Instruction) (src []c15KeySrc, unrec string)
 				continue
 			}
 		case *ssa.Slice:
-			if c15CellOf(t.X) == cell {
+			if sameSlot(t.X) {
 				continue
 			}
 		case *ssa.Call:
-			if builtinName(t) == "append" && len(t.Call.Args) == 2 && c15CellOf(t.Call.Args[0]) == cell {
+			if builtinName(t) == "append" && len(t.Call.Args) == 2 && sameSlot(t.Call.Args[0]) {
 				elems, ok := varargsElems(t.Call.Args[1])
 				if !ok {
-					return nil, "a slice of unknown contents is appended to the key slice"
+					return nil, "a slice of unknown contents is appended to the key slice", false
 				}
-				for _, e := range elems {
-					src = append(src, c15KeySrc{e, t})
+				ctxs := a.Contexts[t]
+				if len(ctxs) == 0 {
+					return nil, "keys are appended at " + k.p.Pos(instrPos(t)) + ", which is not reached from the function under analysis", false
+				}
+				for _, ce := range ctxs {
+					for _, e := range elems {
+						adds = append(adds, c15KeyAdd{c15Site{t, ce}, e})
+					}
 				}
 				continue
 			}
 		}
-		return nil, "the key slice variable is assigned something other than make/append(itself, keys...)"
+		return nil, "the key slice variable is assigned something other than make/append(itself, keys...)", false
 	}
-	return
+	return adds, "", len(adds) == 0
 }
 
-// forEachCallbacks: callbacks handed to Map.ForEach on Cache.m inside fns.
-func (k *c15K) forEachCallbacks(fns []*ssa.Function) map[*ssa.Function]*ssa.Call {
-	out := map[*ssa.Function]*ssa.Call{}
-	for _, fn := range fns {
-		allInstrs(fn, func(in ssa.Instruction) {
-			cc, ok := k.mapCall(in, "ForEach")
-			if !ok || len(cc.Args) < 2 {
-				return
-			}
-			call, _ := in.(*ssa.Call)
-			switch t := cc.Args[1].(type) {
-			case *ssa.MakeClosure:
-				if f, ok := t.Fn.(*ssa.Function); ok {
-					out[f] = call
-				}
-			case *ssa.Function:
-				out[t] = call
-			}
-		})
+// callbackOf resolves the key committed at add to the ForEach callback
+// activation whose key parameter it is (nil if it is not one).
+func (k *c15K) callbackOf(add c15KeyAdd) *c15Env {
+	kv, kenv := k.x.strip(add.Key, add.Site.Env)
+	pa, ok := kv.(*ssa.Parameter)
+	if !ok {
+		return nil
 	}
-	return out
+	isCb := func(e *c15Env) bool {
+		kp, _ := k.cbParams(e)
+		return e.fn == origin(pa.Parent()) && k.forEachOf(e) && kp == pa
+	}
+	for _, start := range []*c15Env{kenv, add.Site.Env} {
+		for e := start; e != nil; e = e.up {
+			if isCb(e) {
+				return e
+			}
+		}
+		for e := start; e != nil; e = e.lex {
+			if isCb(e) {
+				return e
+			}
+		}
+	}
+	return nil
 }
 
-// deleteSites: Map.Del on Cache.m, or Cache.Delete, inside fns.
-func (k *c15K) deleteSites(fns []*ssa.Function) (sites []ssa.CallInstruction, keyArg []ssa.Value, variadic []bool) {
-	del := k.p.FuncOpt("ttlcache", "Cache.Delete")
-	for _, fn := range fns {
-		allInstrs(fn, func(in ssa.Instruction) {
-			ci, ok := in.(ssa.CallInstruction)
-			if !ok {
-				return
-			}
-			if cc, ok := k.mapCall(in, "Del"); ok && len(cc.Args) == 2 {
-				sites, keyArg, variadic = append(sites, ci), append(keyArg, cc.Args[1]), append(variadic, true)
-				return
-			}
-			if g := staticCallee(ci); g != nil && del != nil && g == origin(del) && len(ci.Common().Args) == 2 {
-				sites, keyArg, variadic = append(sites, ci), append(keyArg, ci.Common().Args[1]), append(variadic, false)
-			}
-		})
+// cbParams: the (key, entry) parameters of a ForEach callback activation — the
+// first two parameters that are not bound (a method value binds its receiver).
+func (k *c15K) cbParams(e *c15Env) (key, entry *ssa.Parameter) {
+	if e == nil || e.fn == nil {
+		return nil, nil
 	}
-	return
+	off := len(e.params)
+	if off+1 >= len(e.fn.Params) {
+		return nil, nil
+	}
+	return e.fn.Params[off], e.fn.Params[off+1]
+}
+
+// c15Sink receives the verdicts of expiredOnly.
+type c15Sink struct {
+	ok    func(construct, pos, msg string)
+	viol  func(construct, pos, msg string, wit ...string)
+	undec func(format string, args ...any)
 }
 
 func (k *c15K) checkCleanup() {
 	cl := k.p.Func("ttlcache", "Cache.Cleanup")
 	fname := FuncName(k.p, cl)
 	rule := "C15.U3-cleanup-expired-only"
-	fam := k.family(cl)
-	cbs := k.forEachCallbacks(fam)
-	sites, args, variadic := k.deleteSites(fam)
-	if len(sites) == 0 {
-		k.r.Undecide("%s: no delete on Cache.m found in Cleanup (anchor moved; a Cleanup that removes nothing cannot violate the clause)", fname)
+	ctx := k.x.newCtx()
+	a := k.analyseDeletes(ctx, cl, nil)
+	if len(a.Dels) == 0 {
+		k.r.Undecide("%s: no delete on the map found in Cleanup or the functions it calls (anchor moved; a Cleanup that removes nothing cannot violate the clause)", fname)
 		return
 	}
+	k.expiredOnly(ctx, a, fname, c15Sink{
+		ok:    func(c, pos, msg string) { k.r.OK(rule, c, pos, msg) },
+		viol:  func(c, pos, msg string, wit ...string) { k.r.Violation(rule, c, pos, msg, wit...) },
+		undec: k.r.Undecide,
+	})
+}
+
+// expiredOnly: every key handed to a delete found by analysis a was committed
+// under clock.Now() >(=) exp of its own entry.
+func (k *c15K) expiredOnly(ctx *c15Ctx, a *c15DelAnalysis, fname string, sink c15Sink) {
+	var fam []*ssa.Function
+	for f := range a.Fns {
+		fam = append(fam, f)
+	}
+	sort.Slice(fam, func(i, j int) bool { return FuncName(k.p, fam[i]) < FuncName(k.p, fam[j]) })
 	n := 0
-	for i, site := range sites {
-		var src []c15KeySrc
-		if variadic[i] {
-			var unrec string
-			src, unrec = keySources(args[i], site)
-			if unrec != "" {
-				k.r.Undecide("%s: delete at %s: %s", fname, k.p.Pos(site.Pos()), unrec)
+	for _, d := range a.Dels {
+		if d.Unrec != "" {
+			sink.undec("%s: delete at %s: %s", fname, k.p.Pos(instrPos(d.Site.In)), d.Unrec)
+			continue
+		}
+		for _, add := range d.Adds {
+			n++
+			at := add.Site.In
+			pos := k.p.Pos(instrPos(at))
+			cb := k.callbackOf(add)
+			if cb == nil {
+				sink.undec("%s: the key scheduled for deletion at %s is not the key parameter of a ForEach callback over the map", fname, pos)
 				continue
 			}
-		} else {
-			src = []c15KeySrc{{args[i], site}}
-		}
-		// a key read back from a collected slice (for _, k := range keys { Del(k) })
-		var expanded []c15KeySrc
-		for _, s := range src {
-			if u, ok := s.V.(*ssa.UnOp); ok && u.Op == token.MUL {
-				if ia, ok := u.X.(*ssa.IndexAddr); ok && c15CellOf(ia.X) != nil {
-					if inner, unrec := keySources(ia.X, site); unrec == "" {
-						expanded = append(expanded, inner...)
-						continue
-					}
-				}
-			}
-			expanded = append(expanded, s)
-		}
-		src = expanded
-		for _, s := range src {
-			n++
-			at := s.At
-			cb := origin(at.Parent())
-			construct := fmt.Sprintf("%s key collected in %s", fname, FuncName(k.p, cb))
+			construct := fmt.Sprintf("%s key committed in %s", fname, FuncName(k.p, at.Parent()))
 			if n > 1 {
 				construct += fmt.Sprintf(" #%d", n)
 			}
-			pos := k.p.Pos(instrPos(at))
-			if _, isCb := cbs[cb]; !isCb || len(cb.Params) < 2 {
-				k.r.Undecide("%s: a key is scheduled for deletion outside a ForEach callback over Cache.m (at %s)", fname, pos)
-				continue
+			_, entryParam := k.cbParams(cb)
+			own := func(t c15Term) bool {
+				if t.Kind != c15Exp {
+					return false
+				}
+				ev, _ := k.x.strip(t.Entry, nil)
+				return t.Entry == ssa.Value(entryParam) || ev == ssa.Value(entryParam)
 			}
-			kv, _ := k.x.strip(s.V, nil)
-			if kv != ssa.Value(cb.Params[0]) {
-				k.r.Undecide("%s: the key scheduled for deletion at %s is not the callback's own key parameter", fname, pos)
-				continue
-			}
-			entryParam := cb.Params[1]
-			ctx := k.x.newCtx()
-			own := func(t c15Term) bool { return t.Kind == c15Exp && t.Entry == ssa.Value(entryParam) }
 			good := true
 			var facts c15Set
-			for _, ps := range ctx.paths(at.Block(), nil) {
+			paths := ctx.at(at.Block(), add.Site.Env)
+			for _, ps := range paths {
 				ps = ps.saturate()
 				if !ps.ge(func(t c15Term) bool { return t.Kind == c15Now && t.Off <= 0 }, own) {
 					good, facts = false, ps
@@ -1030,7 +1610,15 @@ func (k *c15K) checkCleanup() {
 				}
 			}
 			if good {
-				k.r.OK(rule, construct, pos, "key collected only under clock.Now() >(=) exp of its own entry, cache clock read during Cleanup")
+				sink.ok(construct, pos, "key committed only under clock.Now() >(=) exp of its own entry, cache clock read during Cleanup")
+				continue
+			}
+			if dec, whyNot := c15ExpDecodable(fam, k.x.cfg); len(ctx.Opaque) > 0 || !dec || len(a.Unresolved) > 0 {
+				why := strings.Join(ctx.Opaque, "; ") + " " + whyNot
+				if len(a.Unresolved) > 0 {
+					why += " call through an unresolved func value at " + strings.Join(a.Unresolved, ", ")
+				}
+				sink.undec("%s: the expiry test guarding %s could not be decoded (%s)", fname, construct, strings.TrimSpace(why))
 				continue
 			}
 			var rel []c15Fact
@@ -1039,16 +1627,12 @@ func (k *c15K) checkCleanup() {
 					rel = append(rel, f)
 				}
 			}
-			if dec, whyNot := c15ExpDecodable(fam, k.x.cfg); len(ctx.Opaque) > 0 || !dec {
-				k.r.Undecide("%s: the expiry is used in %s in a way the decoder does not understand (%s %s)", fname, FuncName(k.p, cb), strings.Join(ctx.Opaque, "; "), whyNot)
-				continue
-			}
 			if len(rel) == 0 {
 				known := strings.Join(facts.list(), ", ")
 				if known == "" {
 					known = "nothing"
 				}
-				k.r.Violation(rule, construct, pos, "Cleanup schedules a key for deletion on a path where its entry's expiry has not been compared with the clock (known on that path: "+known+"): live entries of keys nobody touched disappear", facts.list()...)
+				sink.viol(construct, pos, "Cleanup schedules a key for deletion on a path where its entry's expiry has not been compared with the clock (known on that path: "+known+"): live entries of keys nobody touched disappear", facts.list()...)
 				continue
 			}
 			sort.Slice(rel, func(a, b int) bool { return rel[a].key() < rel[b].key() })
@@ -1061,13 +1645,14 @@ func (k *c15K) checkCleanup() {
 				}
 				switch {
 				case !own(e):
-					msg = "the expiry tested is not the one of the entry whose key is collected"
+					undec = true
+					msg = "the expiry tested could not be traced to the entry whose key is committed"
 				case o.Kind == c15WallNow:
 					msg = "the expiry is compared with time.Now() instead of the cache's clock: entries that are live on the cache's clock are removed whenever the clocks differ"
 				case o.Kind == c15Now && o.Off > 0:
 					msg = fmt.Sprintf("the expiry is compared with clock.Now() shifted forward by %d ns: entries that have not expired yet are removed", o.Off)
 				case o.Kind == c15Now:
-					msg = "the collect condition relates the expiry and the clock as `" + f.String() + "`, which does not imply that the entry has expired (clock.Now() >= entry.exp): live entries are removed"
+					msg = "the commit condition relates the expiry and the clock as `" + f.String() + "`, which does not imply that the entry has expired (clock.Now() >= entry.exp): live entries are removed"
 				default:
 					undec = true
 					msg = "the expiry is compared with " + o.String() + ", which is not a reading of the cache clock taken during Cleanup"
@@ -1077,564 +1662,12 @@ func (k *c15K) checkCleanup() {
 				}
 			}
 			if undec {
-				k.r.Undecide("%s: %s (cannot decide)", construct, msg)
+				sink.undec("%s: %s (cannot decide)", construct, msg)
 				continue
 			}
-			k.r.Violation(rule, construct, pos, msg, facts.list()...)
+			sink.viol(construct, pos, msg, facts.list()...)
 		}
 	}
-}
-
-// ----------------------------------------------------------------- U4 Stop
-
-// c15Must: every return of fn is preceded by an instruction satisfying ev
-// (deferred calls count where they run; calls to in-module functions that
-// themselves always pass ev count).
-func c15Must(p *Prog, fn *ssa.Function, ev func(ssa.Instruction) bool, depth int) (ok bool, nRet int, where string) {
-	var hit func(in ssa.Instruction) bool
-	hit = func(in ssa.Instruction) bool {
-		if ev(in) {
-			return true
-		}
-		if ci, isCall := in.(ssa.CallInstruction); isCall && depth < 2 {
-			if _, isGo := in.(*ssa.Go); isGo {
-				return false
-			}
-			if g := staticCallee(ci); g != nil && p.InModule(g) && len(g.Blocks) > 0 {
-				ok, n, _ := c15Must(p, g, ev, depth+1)
-				return ok && n > 0
-			}
-		}
-		return false
-	}
-	replay := false
-	ff := &FlagFlow{Fn: fn, Must: true, Transfer: func(in ssa.Instruction, st uint64) uint64 {
-		switch in.(type) {
-		case *ssa.RunDefers:
-			replay = true
-			return st
-		case *ssa.Defer:
-			if !replay {
-				return st
-			}
-		default:
-			replay = false
-		}
-		if hit(in) {
-			return st | 1
-		}
-		return st
-	}}
-	ff.Run()
-	ok = true
-	ff.AtReturns(func(ret *ssa.Return, st uint64) {
-		if !liveBlock(ret.Block()) {
-			return
-		}
-		nRet++
-		if st&1 == 0 {
-			ok = false
-			where = p.Pos(instrPos(ret))
-		}
-	})
-	return
-}
-
-func isRecvOn(in ssa.Instruction, ch string) bool {
-	u, ok := in.(*ssa.UnOp)
-	return ok && u.Op == token.ARROW && chanIdent(u.X) == ch
-}
-
-func isCloseOf(in ssa.Instruction, ch string) bool {
-	ci, ok := in.(ssa.CallInstruction)
-	if !ok || builtinName(ci) != "close" || len(ci.Common().Args) != 1 {
-		return false
-	}
-	return chanIdent(ci.Common().Args[0]) == ch
-}
-
-func (k *c15K) checkStop() {
-	p, r := k.p, k.r
-	stop := p.Func("ttlcache", "Cache.Stop")
-	sname := FuncName(p, stop)
-
-	ok, n, where := c15Must(p, stop, func(in ssa.Instruction) bool { return isRecvOn(in, k.runCh) }, 0)
-	if n == 0 {
-		r.Undecide("%s has no return", sname)
-	} else {
-		r.Check(ok, "C15.U4-stop-waits", sname+" waits on runningCh", p.Pos(stop.Pos()),
-			"every return of Stop is preceded by a receive on Cache.runningCh",
-			"Stop can return (at "+where+") without having received from Cache.runningCh: it returns while the background cleaner may still be running (e.g. the second of two concurrent Stop calls, or every call if the wait was dropped)")
-	}
-
-	// Stop signals: close(stopCh) exists in Stop's family, and not after the wait.
-	fam := k.family(stop)
-	nClose := 0
-	late := ""
-	for _, fn := range fam {
-		ff := &FlagFlow{Fn: fn, Must: false, Transfer: func(in ssa.Instruction, st uint64) uint64 {
-			if isRecvOn(in, k.runCh) {
-				return st | 1
-			}
-			return st
-		}}
-		ff.Run()
-		allInstrs(fn, func(in ssa.Instruction) {
-			if !isCloseOf(in, k.stpCh) {
-				return
-			}
-			nClose++
-			if st, ok := ff.Before(in); ok && st&1 != 0 {
-				late = p.Pos(instrPos(in))
-			}
-		})
-	}
-	switch {
-	case nClose == 0:
-		r.Violation("C15.U4-stop-signals", sname+" closes stopCh", p.Pos(stop.Pos()), "Stop no longer closes Cache.stopCh: the cleaner is never told to exit and Stop waits on runningCh forever (Stop never returns)")
-	case late != "":
-		r.Violation("C15.U4-stop-signals", sname+" closes stopCh", late, "Stop closes Cache.stopCh only after it has waited on Cache.runningCh: the cleaner exits only on stopCh, so Stop never returns")
-	default:
-		r.OK("C15.U4-stop-signals", sname+" closes stopCh", p.Pos(stop.Pos()), "close(stopCh) precedes the wait")
-	}
-
-	// the goroutine(s)
-	type goSite struct {
-		in *ssa.Go
-		g  *ssa.Function
-	}
-	var gos []goSite
-	goFns := map[*ssa.Function]bool{}
-	for _, fn := range p.FuncsOfPkg("ttlcache") {
-		allInstrs(fn, func(in ssa.Instruction) {
-			if g, ok := in.(*ssa.Go); ok {
-				if f := staticCallee(g); f != nil {
-					gos = append(gos, goSite{g, f})
-					goFns[f] = true
-				}
-			}
-		})
-	}
-	// closers of runningCh
-	var closers []*ssa.Function
-	nSites := 0
-	for _, fn := range p.FuncsOfPkg("ttlcache") {
-		has := false
-		allInstrs(fn, func(in ssa.Instruction) {
-			if isCloseOf(in, k.runCh) {
-				has = true
-				nSites++
-				if !goFns[origin(fn)] {
-					r.Violation("C15.U4-cleaner-exit", FuncName(p, fn)+" closes runningCh", p.Pos(instrPos(in)), "Cache.runningCh is closed by "+FuncName(p, fn)+", which is not the body of the background goroutine: Stop's wait is released although the cleaner may still be running")
-				}
-			}
-		})
-		if has && goFns[origin(fn)] {
-			closers = append(closers, fn)
-		}
-	}
-	if nSites == 0 {
-		r.Violation("C15.U4-cleaner-exit", "ttlcache cleaner closes runningCh", p.Pos(stop.Pos()), "nothing closes Cache.runningCh: Stop never returns")
-		return
-	}
-	cleanup := p.FuncOpt("ttlcache", "Cache.Cleanup")
-	for _, g := range closers {
-		gname := FuncName(p, g)
-		// (i) closed on every exit
-		okc, nr, wherec := c15Must(p, g, func(in ssa.Instruction) bool { return isCloseOf(in, k.runCh) }, 0)
-		// a deferred close must be registered on every path to every exit
-		allInstrs(g, func(in ssa.Instruction) {
-			d, isD := in.(*ssa.Defer)
-			if !isD || !isCloseOf(d, k.runCh) {
-				return
-			}
-			allInstrs(g, func(j ssa.Instruction) {
-				if _, isRD := j.(*ssa.RunDefers); isRD && liveBlock(j.Block()) && !instrDominates(d, j) {
-					okc = false
-					wherec = p.Pos(instrPos(j))
-				}
-			})
-		})
-		// (ii) nothing cleans after the close
-		after := ""
-		replay := false
-		ff := &FlagFlow{Fn: g, Must: false, Transfer: func(in ssa.Instruction, st uint64) uint64 {
-			switch in.(type) {
-			case *ssa.RunDefers:
-				replay = true
-				return st
-			case *ssa.Defer:
-				if !replay {
-					return st
-				}
-			default:
-				replay = false
-			}
-			if isCloseOf(in, k.runCh) {
-				return st | 1
-			}
-			if st&1 != 0 {
-				if ci, ok := in.(ssa.CallInstruction); ok {
-					if _, isMap := k.mapCall(in, ""); isMap {
-						after = p.Pos(instrPos(in))
-					}
-					if f := staticCallee(ci); f != nil && cleanup != nil && f == origin(cleanup) {
-						after = p.Pos(instrPos(in))
-					}
-				}
-			}
-			return st
-		}}
-		ff.Run()
-		switch {
-		case nr > 0 && !okc:
-			r.Violation("C15.U4-cleaner-exit", gname+" closes runningCh on exit", wherec, "the cleaner goroutine can exit (at "+wherec+") without closing Cache.runningCh: Stop waits forever")
-		case after != "":
-			r.Violation("C15.U4-cleaner-exit", gname+" closes runningCh on exit", after, "the cleaner goroutine still touches the cache (at "+after+") after closing Cache.runningCh: Stop returns while the cleaner is still cleaning")
-		default:
-			r.OK("C15.U4-cleaner-exit", gname+" closes runningCh on exit", p.Pos(g.Pos()), "runningCh is closed on every exit of the goroutine body, after its last cleaning step")
-		}
-
-		// periodic cleaning goes through Cleanup only, synchronously
-		{
-			badCall, badPos := "", ""
-			detached, detachedPos := "", ""
-			var unresolved []string
-			hasJoin := false
-			seenF := map[*ssa.Function]bool{}
-			var walk func(f *ssa.Function)
-			// visit one possible callee h of call site in
-			visit := func(h *ssa.Function, in ssa.Instruction, how string) {
-				h = k.unwrapFn(h)
-				if h == nil || h.Pkg == nil || h.Pkg.Pkg.Path() != k.pkg {
-					return
-				}
-				if _, isGo := in.(*ssa.Go); isGo && k.reachesMutation(h, map[*ssa.Function]bool{}) {
-					detached, detachedPos = FuncName(p, h)+how, p.Pos(instrPos(in))
-				}
-				if cleanup != nil && h == origin(cleanup) {
-					return // audited by U3
-				}
-				if isExportedFunc(h) {
-					switch h.Name() {
-					case "Reset", "Delete", "Set":
-						badCall, badPos = FuncName(p, h)+how, p.Pos(instrPos(in))
-					}
-					return
-				}
-				walk(h)
-			}
-			walk = func(f *ssa.Function) {
-				f = origin(f)
-				if f == nil || seenF[f] || len(f.Blocks) == 0 {
-					return
-				}
-				seenF[f] = true
-				for _, a := range f.AnonFuncs {
-					walk(a)
-				}
-				allInstrs(f, func(in ssa.Instruction) {
-					ci, ok := in.(ssa.CallInstruction)
-					if !ok {
-						return
-					}
-					if callIs(ci, "sync", "WaitGroup", "Wait") {
-						hasJoin = true
-					}
-					if _, isMap := k.mapCall(in, ""); isMap {
-						switch name := calleeObj(ci).Name(); name {
-						case "Get", "ForEach", "Len", "Fillrate", "Grow":
-						default:
-							badCall, badPos = "Map."+name+" on Cache.m", p.Pos(instrPos(in))
-							if _, isGo := in.(*ssa.Go); isGo {
-								detached, detachedPos = "Map."+name+" on Cache.m", p.Pos(instrPos(in))
-							}
-						}
-						return
-					}
-					cc := ci.Common()
-					if cc.IsInvoke() || builtinName(ci) != "" {
-						return // clock / ticker interface methods, builtins
-					}
-					if h := staticCallee(ci); h != nil {
-						visit(h, in, "")
-						return
-					}
-					// a call through a func value: every possible target counts
-					targets, unknown := k.funcTargets(cc.Value, 0)
-					if unknown {
-						unresolved = append(unresolved, p.Pos(instrPos(in)))
-					}
-					for _, h := range targets {
-						visit(h, in, " (through a func value)")
-					}
-				})
-			}
-			walk(g)
-			// a Cleanup that detaches its own deletions is part of the cleaner too
-			if cleanup != nil {
-				for _, f := range k.family(cleanup) {
-					allInstrs(f, func(in ssa.Instruction) {
-						gi, ok := in.(*ssa.Go)
-						if !ok {
-							return
-						}
-						if _, isMap := k.mapCall(in, ""); isMap {
-							detached, detachedPos = "a map operation of Cleanup", p.Pos(instrPos(in))
-							return
-						}
-						ts := []*ssa.Function{staticCallee(gi)}
-						if ts[0] == nil {
-							ts, _ = k.funcTargets(gi.Call.Value, 0)
-						}
-						for _, h := range ts {
-							if h = k.unwrapFn(h); h != nil && k.reachesMutation(h, map[*ssa.Function]bool{}) {
-								detached, detachedPos = FuncName(p, h)+" (spawned inside Cleanup)", p.Pos(instrPos(in))
-							}
-						}
-					})
-				}
-			}
-			switch {
-			case badCall != "":
-				r.Violation("C15.U3-periodic-via-cleanup", gname+" mutates the cache only through Cleanup", badPos,
-					"the background goroutine can call "+badCall+" (at "+badPos+"): the periodic cleaner removes or rewrites entries other than through the expired-only Cleanup, so live entries of keys nobody touched disappear (e.g. a key Set shortly before the tick)")
-			case len(unresolved) > 0:
-				r.Undecide("%s: a call through a func value at %s has targets that cannot be resolved; cannot decide that the periodic cleaner mutates the cache only through Cleanup", gname, strings.Join(unresolved, ", "))
-			default:
-				r.OK("C15.U3-periodic-via-cleanup", gname+" mutates the cache only through Cleanup", p.Pos(g.Pos()),
-					"every call of the background goroutine that can mutate Cache.m — direct, through a method value, a func variable or a phi of them — resolves to Cache.Cleanup (audited by U3)")
-			}
-			switch {
-			case detached != "" && hasJoin:
-				r.Undecide("%s: %s is started with `go` at %s inside the cleaner and a WaitGroup.Wait is present; whether it is joined before runningCh is closed is not analysed", gname, detached, detachedPos)
-			case detached != "":
-				r.Violation("C15.U4-cleaner-synchronous", gname+" cleans synchronously", detachedPos,
-					"the cleaner starts "+detached+" with `go` (at "+detachedPos+") and never joins it: when Cache.stopCh is closed the loop exits and closes Cache.runningCh while that detached goroutine may still be scanning and deleting — Stop returns before the background cleaning has ended")
-			default:
-				r.OK("C15.U4-cleaner-synchronous", gname+" cleans synchronously", p.Pos(g.Pos()),
-					"no call that can reach a mutation of Cache.m is started with `go` inside the cleaner (or inside Cleanup)")
-			}
-		}
-
-		// stop case in every wait
-		nWait := 0
-		for _, op := range blockingOps(nil, g) {
-			nWait++
-			construct := fmt.Sprintf("%s wait", gname)
-			if nWait > 1 {
-				construct = fmt.Sprintf("%s wait #%d", gname, nWait)
-			}
-			pos := p.Pos(instrPos(op.Instr))
-			if op.Kind != "select" {
-				r.Violation("C15.U4-cleaner-stopcase", construct, pos, "the cleaner goroutine blocks ("+op.Desc+") where a close of Cache.stopCh cannot wake it: Stop never returns")
-				continue
-			}
-			good, loops := false, false
-			for _, cs := range op.Sel.Cases {
-				if cs.Dir == types.RecvOnly && cs.Chan == k.stpCh {
-					good = true
-					if cs.Body != nil && reachableFrom(cs.Body, nil)[op.Instr.Block()] {
-						loops = true
-					}
-				}
-			}
-			switch {
-			case !good:
-				r.Violation("C15.U4-cleaner-stopcase", construct, pos, "the cleaner's select has no case on Cache.stopCh: the goroutine never exits and Stop never returns")
-			case loops:
-				r.Violation("C15.U4-cleaner-stopcase", construct, pos, "the Cache.stopCh case of the cleaner's select goes back to waiting instead of leaving the loop: the goroutine never exits and Stop never returns")
-			default:
-				r.OK("C15.U4-cleaner-stopcase", construct, pos, "select has a Cache.stopCh case that leaves the loop")
-			}
-		}
-
-		// start: runningCh created before go; NewCache always reaches the go
-		for _, gs := range gos {
-			if origin(gs.g) != origin(g) {
-				continue
-			}
-			spawner := gs.in.Parent()
-			construct := FuncName(p, spawner) + " -> go " + gname
-			created := false
-			allInstrs(spawner, func(in ssa.Instruction) {
-				st, ok := in.(*ssa.Store)
-				if !ok {
-					return
-				}
-				if fa, ok := st.Addr.(*ssa.FieldAddr); ok {
-					if id := fieldIDOfAddr(fa); id.Type == k.x.cfg.CacheT && id.Field == "runningCh" {
-						if _, isMk := st.Val.(*ssa.MakeChan); isMk && instrDominates(st, gs.in) {
-							created = true
-						}
-					}
-				}
-			})
-			nc := p.Func("ttlcache", "NewCache")
-			if !created && origin(spawner) != origin(nc) {
-				// maybe created by the constructor before calling the spawner
-				allInstrs(nc, func(in ssa.Instruction) {
-					st, ok := in.(*ssa.Store)
-					if !ok {
-						return
-					}
-					if fa, ok := st.Addr.(*ssa.FieldAddr); ok {
-						if id := fieldIDOfAddr(fa); id.Type == k.x.cfg.CacheT && id.Field == "runningCh" {
-							if _, isMk := st.Val.(*ssa.MakeChan); isMk {
-								allInstrs(nc, func(j ssa.Instruction) {
-									if ci, ok := j.(ssa.CallInstruction); ok && staticCallee(ci) == origin(spawner) && instrDominates(st, j) {
-										created = true
-									}
-								})
-							}
-						}
-					}
-				})
-			}
-			started := origin(spawner) == origin(nc)
-			if !started {
-				okS, nS, _ := c15Must(p, nc, func(in ssa.Instruction) bool {
-					ci, ok := in.(ssa.CallInstruction)
-					if !ok {
-						return false
-					}
-					if _, isGo := in.(*ssa.Go); isGo {
-						return false
-					}
-					return staticCallee(ci) == origin(spawner)
-				}, 0)
-				started = okS && nS > 0
-			} else {
-				okS, nS, _ := c15Must(p, nc, func(in ssa.Instruction) bool { return in == ssa.Instruction(gs.in) }, 0)
-				started = okS && nS > 0
-			}
-			switch {
-			case !created:
-				r.Violation("C15.U4-cleaner-start", construct, p.Pos(gs.in.Pos()), "Cache.runningCh is not created (make(chan)) before the cleaner goroutine is started: the goroutine may close a nil/unset channel, or Stop may wait on a channel nobody closes")
-			case !started:
-				r.Violation("C15.U4-cleaner-start", construct, p.Pos(nc.Pos()), "NewCache can return without starting the cleaner goroutine: Cache.runningCh is never closed and Stop never returns")
-			default:
-				r.OK("C15.U4-cleaner-start", construct, p.Pos(gs.in.Pos()), "runningCh is created before the go statement and NewCache always starts the cleaner")
-			}
-		}
-	}
-}
-
-// unwrapFn maps bound-method / thunk / instantiation wrappers to the
-// (origin of the) declared method they stand for.
-func (k *c15K) unwrapFn(f *ssa.Function) *ssa.Function {
-	if f == nil {
-		return nil
-	}
-	f = origin(f)
-	if f.Synthetic != "" {
-		if obj, ok := f.Object().(*types.Func); ok && obj != nil {
-			if t := k.p.SSA.FuncValue(obj.Origin()); t != nil {
-				return origin(t)
-			}
-		}
-	}
-	return f
-}
-
-// funcTargets resolves the functions a func value can denote: a function, a
-// (bound-method) closure, a phi of them, or a local / captured func variable
-// all of whose stores resolve. unknown=true if some possibility does not.
-func (k *c15K) funcTargets(v ssa.Value, depth int) (out []*ssa.Function, unknown bool) {
-	if depth > 6 || v == nil {
-		return nil, true
-	}
-	switch t := v.(type) {
-	case *ssa.Function:
-		return []*ssa.Function{t}, false
-	case *ssa.MakeClosure:
-		if f, ok := t.Fn.(*ssa.Function); ok {
-			return []*ssa.Function{f}, false
-		}
-		return nil, true
-	case *ssa.ChangeType:
-		return k.funcTargets(t.X, depth+1)
-	case *ssa.Phi:
-		for _, e := range t.Edges {
-			if e == ssa.Value(t) {
-				continue
-			}
-			o, u := k.funcTargets(e, depth+1)
-			out = append(out, o...)
-			unknown = unknown || u
-		}
-		return
-	case *ssa.UnOp:
-		if t.Op != token.MUL {
-			return nil, true
-		}
-		cell := c15CellOf(t)
-		if cell == nil {
-			return nil, true
-		}
-		stores, ok := c15CellStores(cell)
-		if !ok || len(stores) == 0 {
-			return nil, true
-		}
-		for _, st := range stores {
-			o, u := k.funcTargets(st.Val, depth+1)
-			out = append(out, o...)
-			unknown = unknown || u
-		}
-		return
-	case *ssa.FreeVar:
-		if b := resolveFreeVar(t); b != nil {
-			return k.funcTargets(b, depth+1)
-		}
-	case *ssa.Const:
-		if t.IsNil() {
-			return nil, false
-		}
-	}
-	return nil, true
-}
-
-// reachesMutation: f (transitively, through static calls, closures and
-// resolvable func values inside the package) can mutate Cache.m.
-func (k *c15K) reachesMutation(f *ssa.Function, seen map[*ssa.Function]bool) bool {
-	f = k.unwrapFn(f)
-	if f == nil || seen[f] || len(f.Blocks) == 0 {
-		return false
-	}
-	seen[f] = true
-	found := false
-	for _, a := range f.AnonFuncs {
-		if k.reachesMutation(a, seen) {
-			found = true
-		}
-	}
-	allInstrs(f, func(in ssa.Instruction) {
-		ci, ok := in.(ssa.CallInstruction)
-		if !ok || found {
-			return
-		}
-		if _, isMap := k.mapCall(in, ""); isMap {
-			switch calleeObj(ci).Name() {
-			case "Get", "ForEach", "Len", "Fillrate", "Grow":
-			default:
-				found = true
-			}
-			return
-		}
-		if ci.Common().IsInvoke() || builtinName(ci) != "" {
-			return
-		}
-		ts := []*ssa.Function{staticCallee(ci)}
-		if ts[0] == nil {
-			ts, _ = k.funcTargets(ci.Common().Value, 0)
-		}
-		for _, h := range ts {
-			if h = k.unwrapFn(h); h != nil && h.Pkg != nil && h.Pkg.Pkg.Path() == k.pkg && k.reachesMutation(h, seen) {
-				found = true
-			}
-		}
-	})
-	return found
 }
 
 // ------------------------------------------------------ U5 Delete / Reset
@@ -1643,124 +1676,131 @@ func (k *c15K) checkDeleteReset() {
 	p, r := k.p, k.r
 	del := p.Func("ttlcache", "Cache.Delete")
 	dname := FuncName(p, del)
-	var keyParam *ssa.Parameter
-	for i, pa := range del.Params {
-		if i > 0 {
-			if b, ok := pa.Type().Underlying().(*types.Basic); ok && b.Kind() == types.String {
-				keyParam = pa
-			}
+	noKey := ""
+	k.x.mustUnsure = false
+	ok, n, where := k.x.must(del, nil, func(in ssa.Instruction, env *c15Env) bool {
+		if _, isGD := k.mapCallE(in, env, "GetAndDel"); isGD {
+			return true
 		}
-	}
-	wrongKey := ""
-	ok, n, where := c15Must(p, del, func(in ssa.Instruction) bool {
-		cc, isDel := k.mapCall(in, "Del")
+		cc, isDel := k.mapCallE(in, env, "Del")
 		if !isDel {
-			if cc2, isGD := k.mapCall(in, "GetAndDel"); isGD {
-				_ = cc2
-				return true
-			}
 			return false
 		}
-		if elems, okE := varargsElems(cc.Args[1]); okE && keyParam != nil {
+		sv, _ := k.x.strip(cc.Args[1], env)
+		if elems, okE := varargsElems(sv); okE && len(elems) == 0 {
 			// only the certain case is armed: no key at all is passed
-			// (a normalised key is fine as long as Set/Get normalise alike)
-			if len(elems) == 0 {
-				wrongKey = p.Pos(instrPos(in))
-				return false
-			}
+			noKey = p.Pos(instrPos(in))
+			return false
 		}
 		return true
 	}, 0)
 	if n == 0 {
 		r.Undecide("%s has no return", dname)
+	} else if !ok && k.x.mustUnsure && noKey == "" {
+		r.Undecide("%s: a return is reached without a visible delete, but a call on the way could not be followed", dname)
 	} else {
-		msg := "Delete can return (at " + where + ") without deleting the key from Cache.m: a later Get still returns the deleted value"
-		if wrongKey != "" {
-			msg = "the delete at " + wrongKey + " passes no key at all: a later Get still returns the deleted value"
+		msg := "Delete can return (at " + p.Pos(where) + ") without deleting the key from the map: a later Get still returns the deleted value"
+		if noKey != "" {
+			msg = "the delete at " + noKey + " passes no key at all: a later Get still returns the deleted value"
 		}
-		r.Check(ok, "C15.U5-delete", dname+" deletes the key", p.Pos(del.Pos()), "every return of Delete is preceded by Map.Del(key) on Cache.m", msg)
+		r.Check(ok, "C15.U5-delete", dname+" deletes the key", p.Pos(del.Pos()), "every return of Delete is preceded by a delete on the map (directly or in the helpers it calls)", msg)
 	}
 
 	// Reset
 	reset := p.Func("ttlcache", "Cache.Reset")
 	rname := FuncName(p, reset)
-	fam := k.family(reset)
-	cbs := k.forEachCallbacks(fam)
-	sites, args, variadic := k.deleteSites(fam)
 	construct := rname + " removes every key"
-	if len(cbs) == 0 || len(sites) == 0 {
-		r.Undecide("%s: Reset is not of the form ForEach-collect + Del (anchor moved)", rname)
+	ctx := k.x.newCtx()
+	a := k.analyseDeletes(ctx, reset, nil)
+	if len(a.Dels) == 0 || len(a.ForEach) == 0 {
+		r.Undecide("%s: Reset is not of the form ForEach-commit + delete, in it or in the functions it calls (anchor moved)", rname)
 		return
 	}
 	bad, undec := "", ""
 	pos := p.Pos(reset.Pos())
-	for i, site := range sites {
-		if !variadic[i] {
-			undec = "per-key Delete in Reset"
+	delSites := map[ssa.Instruction]bool{}
+	for _, d := range a.Dels {
+		delSites[d.Site.In] = true
+		if d.Unrec != "" {
+			undec = "delete at " + p.Pos(instrPos(d.Site.In)) + ": " + d.Unrec
 			continue
 		}
-		cell := c15CellOf(args[i])
-		src, unrec := keySources(args[i], site)
-		if unrec != "" || cell == nil {
-			undec = "delete at " + p.Pos(site.Pos()) + ": " + unrec
-			continue
-		}
-		if len(src) == 0 {
+		if d.Empty {
 			bad = "Reset deletes a key slice nothing is appended to: no entry is removed and Get keeps returning values Set before the Reset"
 			continue
 		}
-		for _, s := range src {
-			cb := origin(s.At.Parent())
-			fe, isCb := cbs[cb]
-			if !isCb || len(cb.Params) < 1 {
-				undec = "a key is collected outside a ForEach callback"
+		// group the commit sites by callback activation
+		byCb := map[*c15Env][]ssa.Instruction{}
+		var order []*c15Env
+		for _, add := range d.Adds {
+			cb := k.callbackOf(add)
+			if cb == nil {
+				undec = "a key committed at " + p.Pos(instrPos(add.Site.In)) + " is not the key parameter of a ForEach callback over the map"
 				continue
 			}
-			if kv, _ := k.x.strip(s.V, nil); kv != ssa.Value(cb.Params[0]) {
-				undec = "the key collected is not the callback's key parameter"
-				continue
+			if _, seen := byCb[cb]; !seen {
+				order = append(order, cb)
 			}
-			// callback: appends on every path, always returns true
-			okA, nA, whereA := c15Must(p, cb, func(in ssa.Instruction) bool {
-				st, ok := in.(*ssa.Store)
-				if !ok {
-					return false
+			byCb[cb] = append(byCb[cb], add.Site.In)
+		}
+		for _, cb := range order {
+			sites := byCb[cb]
+			// a commit site nested in a helper called by the callback: the call leading to it counts
+			isCommit := func(in ssa.Instruction) bool {
+				for _, s := range sites {
+					if s == in {
+						return true
+					}
+					// store of the append result / the Slice feeding a direct delete sit next to it
+					if st, ok := in.(*ssa.Store); ok {
+						if vi, isI := st.Val.(ssa.Instruction); isI && vi == s {
+							return true
+						}
+					}
+					if false {
+						return true
+					}
 				}
-				call, ok := st.Val.(*ssa.Call)
-				return ok && builtinName(call) == "append" && c15CellOf(call.Call.Args[0]) == cell && ssa.Instruction(call) == s.At
-			}, 0)
-			if nA > 0 && !okA {
-				bad = "the ForEach callback of Reset can return (at " + whereA + ") without collecting the key: that entry survives Reset and Get keeps returning a value Set before the Reset"
-				pos = whereA
+				return false
 			}
-			for _, ret := range returnsOf(cb) {
-				if len(ret.Results) != 1 {
+			nested := false
+			for _, s := range sites {
+				if origin(s.Parent()) != cb.fn {
+					nested = true
+				}
+			}
+			okA, whereA, wit := ctx.feasibleMust(cb.fn, cb, isCommit)
+			if !okA {
+				if nested || len(a.Unresolved) > 0 || len(ctx.Opaque) > 0 {
+					undec = "the ForEach callback of Reset may return without committing the key, but part of its logic could not be followed"
+				} else {
+					known := strings.Join(wit.list(), ", ")
+					if known == "" {
+						known = "nothing"
+					}
+					bad = "in Reset's context the ForEach callback can return (at " + p.Pos(whereA) + ") without committing the key (known on that path: " + known + "): that entry survives Reset and Get keeps returning a value Set before the Reset"
+					pos = p.Pos(whereA)
+				}
+			}
+			for _, ret := range returnsOf(cb.fn) {
+				if len(ret.Results) != 1 || len(ctx.at(ret.Block(), cb)) == 0 {
 					continue
 				}
-				f, vac := k.x.newCtx().factsWhen(ret.Results[0], false, nil, 0)
-				_ = f
-				if !vac {
+				if _, vac := ctx.factsWhen(ret.Results[0], false, cb, 0); !vac {
 					bad = "the ForEach callback of Reset can return false (at " + p.Pos(instrPos(ret)) + "), which stops the iteration: the remaining entries survive Reset and Get keeps returning values Set before the Reset"
 					pos = p.Pos(instrPos(ret))
 				}
 			}
-			// the delete follows the ForEach
-			if fe != nil && fe.Parent() == site.Parent() && !instrDominates(fe, site) {
-				bad = "Reset deletes the collected keys on a path that has not run the ForEach: nothing (or not everything) is removed"
+			// the delete follows the ForEach (when both sit in the same function)
+			if fe, ok := cb.via.(*ssa.Call); ok && fe.Parent() == d.Site.In.Parent() && !instrDominates(fe, d.Site.In) {
+				bad = "Reset deletes the committed keys on a path that has not run the ForEach: nothing (or not everything) is removed"
 			}
 		}
 	}
 	// the delete happens on every path
-	okD, nD, whereD := c15Must(p, reset, func(in ssa.Instruction) bool {
-		for _, s := range sites {
-			if in == ssa.Instruction(s) {
-				return true
-			}
-		}
-		return false
-	}, 0)
+	okD, nD, whereD := k.x.must(reset, nil, func(in ssa.Instruction, env *c15Env) bool { return delSites[in] }, 0)
 	if nD > 0 && !okD && bad == "" {
-		bad = "Reset can return (at " + whereD + ") without deleting the collected keys"
+		bad = "Reset can return (at " + p.Pos(whereD) + ") without deleting the committed keys"
 	}
 	switch {
 	case bad != "":
@@ -1768,8 +1808,529 @@ func (k *c15K) checkDeleteReset() {
 	case undec != "":
 		r.Undecide("%s: %s", rname, undec)
 	default:
-		r.OK("C15.U5-reset", construct, pos, "callback collects every key on every path, never stops the iteration; the collected keys are deleted on every path")
+		r.OK("C15.U5-reset", construct, pos, "in Reset's context the callback commits every key on every feasible path and never stops the iteration; the committed keys are deleted on every path")
 	}
+}
+
+// ----------------------------------------------------------------- U4 Stop
+
+// reachesMutation: f (transitively) can mutate the store.
+func (k *c15K) reachesMutation(tg c15Target, env *c15Env) bool {
+	if !k.x.inlinable(tg.Fn) {
+		return false
+	}
+	found := false
+	ge := k.x.activate(tg, nil, env, nil, "call")
+	k.x.walk(k.x.newCtx(), tg.Fn, ge, nil, func(in ssa.Instruction, env *c15Env) {
+		if _, isMap := k.mapCallE(in, env, ""); isMap && !c15ReadOnlyMapMethod(calleeObj(in.(ssa.CallInstruction)).Name()) {
+			found = true
+		}
+	}, nil)
+	return found
+}
+
+// chain: the instructions leading from the root of a walk to site, outermost first.
+func c15Chain(s c15Site) []ssa.Instruction {
+	var rev []ssa.Instruction
+	rev = append(rev, s.In)
+	for e := s.Env; e != nil && e.via != nil; e = e.up {
+		rev = append(rev, e.via)
+	}
+	out := make([]ssa.Instruction, 0, len(rev))
+	for i := len(rev) - 1; i >= 0; i-- {
+		out = append(out, rev[i])
+	}
+	return out
+}
+
+// c15Before: a is executed before b on every execution that reaches b (both
+// seen from the same walk root): at the first level where their call chains
+// part, a's instruction dominates b's and is not merely deferred.
+func c15Before(a, b c15Site) bool {
+	ca, cb := c15Chain(a), c15Chain(b)
+	for i := 0; i < len(ca) && i < len(cb); i++ {
+		if ca[i] == cb[i] {
+			continue
+		}
+		if ca[i].Parent() != cb[i].Parent() {
+			return false
+		}
+		if _, isDefer := ca[i].(*ssa.Defer); isDefer && i < len(ca)-1 {
+			return false // runs at function exit
+		}
+		if _, isGo := ca[i].(*ssa.Go); isGo && i < len(ca)-1 {
+			return false // runs concurrently
+		}
+		return instrDominates(ca[i], cb[i])
+	}
+	return false
+}
+
+func (k *c15K) checkStop() {
+	p, r := k.p, k.r
+	stop := p.Func("ttlcache", "Cache.Stop")
+	nc := p.Func("ttlcache", "NewCache")
+	sname := FuncName(p, stop)
+	if k.runF == "" || k.stpF == "" {
+		r.Undecide("the done / stop channels of Cache could not be identified by role (the goroutine started by NewCache closes / selects on no channel field of Cache that Stop waits on / closes): join or stop mechanisms other than channel fields are not analysed")
+		return
+	}
+	runName, stpName := k.fld(k.runF), k.fld(k.stpF)
+	isRecvRun := k.joinWait
+	isCloseRun := k.joinSignal
+
+	k.mustCheck(stop, nil, isRecvRun, "C15.U4-stop-waits", sname+" waits on the done channel",
+		"every return of Stop is preceded by a wait on "+runName+" (directly or in a helper it always calls)",
+		func(where string) string {
+			return "Stop can return (at " + where + ") without having waited on " + runName + ": it returns while the background cleaner may still be running (e.g. the second of two concurrent Stop calls, or every call if the wait was dropped)"
+		})
+
+	// Stop signals: close(stop channel) is reachable from Stop, and not after the wait.
+	ctx := k.x.newCtx()
+	var closes, waits []c15Site
+	k.x.walk(ctx, stop, nil, nil, func(in ssa.Instruction, env *c15Env) {
+		if k.closeField(in, env) == k.stpF {
+			closes = append(closes, c15Site{in, env})
+		}
+		if isRecvRun(in, env) {
+			waits = append(waits, c15Site{in, env})
+		}
+	}, nil)
+	late := ""
+	for _, cl := range closes {
+		for _, w := range waits {
+			if c15Before(w, cl) {
+				late = p.Pos(instrPos(cl.In))
+			}
+		}
+	}
+	switch {
+	case len(closes) == 0:
+		r.Violation("C15.U4-stop-signals", sname+" closes the stop channel", p.Pos(stop.Pos()), "neither Stop nor anything it calls closes "+stpName+": the cleaner is never told to exit and Stop waits on "+runName+" forever (Stop never returns)")
+	case late != "":
+		r.Violation("C15.U4-stop-signals", sname+" closes the stop channel", late, "Stop closes "+stpName+" only after it has waited on "+runName+": the cleaner exits only on the stop channel, so Stop never returns")
+	default:
+		r.OK("C15.U4-stop-signals", sname+" closes the stop channel", p.Pos(stop.Pos()), "close of the stop channel is reachable from Stop and precedes the wait")
+	}
+
+	// the goroutine(s) NewCache starts
+	gos := k.goSites()
+	// where is the done channel closed?
+	type closer struct {
+		g     c15Go
+		sites []c15Site
+	}
+	var closers []closer
+	var unattributed []string
+	inG := map[ssa.Instruction]bool{}
+	for _, g := range gos {
+		cl := closer{g: g}
+		k.x.walk(ctx, g.Tg.Fn, g.Env, nil, func(in ssa.Instruction, env *c15Env) {
+			if ci, ok := in.(ssa.CallInstruction); ok && builtinName(ci) == "close" && k.closeField(in, env) == "" {
+				unattributed = append(unattributed, p.Pos(instrPos(in)))
+			}
+			if isCloseRun(in, env) {
+				cl.sites = append(cl.sites, c15Site{in, env})
+				inG[in] = true
+			}
+		}, nil)
+		if len(cl.sites) > 0 {
+			closers = append(closers, cl)
+		}
+	}
+	// closes of the done channel outside the goroutine
+	api := map[string]*ssa.Function{}
+	for _, nme := range []string{"Cache.Stop", "Cache.Get", "Cache.Set", "Cache.Delete", "Cache.Cleanup", "Cache.Reset", "NewCache"} {
+		if f := p.FuncOpt("ttlcache", nme); f != nil {
+			api[nme] = f
+		}
+	}
+	nSites := len(inG)
+	var apiNames []string
+	for nme := range api {
+		apiNames = append(apiNames, nme)
+	}
+	sort.Strings(apiNames)
+	for _, nme := range apiNames {
+		f := api[nme]
+		k.x.walk(ctx, f, nil, func(g *ssa.Function) bool { return false }, func(in ssa.Instruction, env *c15Env) {
+			if !isCloseRun(in, env) || inG[in] || k.underGo(env) {
+				return
+			}
+			if _, isGo := in.(*ssa.Go); isGo {
+				return
+			}
+			nSites++
+			r.Violation("C15.U4-cleaner-exit", FuncName(p, in.Parent())+" closes the done channel", p.Pos(instrPos(in)), runName+" is closed by "+FuncName(p, in.Parent())+" (reached from "+nme+" outside the background goroutine): Stop's wait is released although the cleaner may still be running")
+		}, nil)
+	}
+	if nSites == 0 && len(unattributed) > 0 {
+		r.Undecide("nothing visibly closes %s, but the goroutine closes a channel at %s that could not be tied to a field of Cache", runName, strings.Join(unattributed, ", "))
+		return
+	}
+	if nSites == 0 {
+		r.Violation("C15.U4-cleaner-exit", "ttlcache cleaner closes the done channel", p.Pos(stop.Pos()), "nothing reachable from NewCache's goroutine or the API closes "+runName+": Stop never returns")
+		return
+	}
+	cleanup := p.FuncOpt("ttlcache", "Cache.Cleanup")
+	for _, cl := range closers {
+		g := cl.g.Tg.Fn
+		genv := cl.g.Env
+		gname := FuncName(p, g)
+		// (i) closed on every exit
+		okc, nr, wherec := k.x.must(g, genv, isCloseRun, 0)
+		wherecS := p.Pos(wherec)
+		// a deferred close must be registered on every path to every exit
+		allInstrs(g, func(in ssa.Instruction) {
+			d, isD := in.(*ssa.Defer)
+			if !isD {
+				return
+			}
+			closesIt := isCloseRun(d, genv)
+			if !closesIt {
+				if ts, unk := k.x.callTargets(&d.Call, genv); !unk && len(ts) == 1 && k.x.inlinable(ts[0].Fn) {
+					o, nn, _ := k.x.must(ts[0].Fn, k.x.activate(ts[0], d.Call.Args, genv, d, "defer"), isCloseRun, 1)
+					closesIt = o && nn > 0
+				}
+			}
+			if !closesIt {
+				return
+			}
+			allInstrs(g, func(j ssa.Instruction) {
+				if _, isRD := j.(*ssa.RunDefers); isRD && liveBlock(j.Block()) && !instrDominates(d, j) {
+					okc = false
+					wherecS = p.Pos(instrPos(j))
+				}
+			})
+		})
+		// (ii) nothing cleans after the close (in the goroutine body itself)
+		after := ""
+		var ff *FlagFlow
+		ff = &FlagFlow{Fn: g, Must: false, Transfer: func(in ssa.Instruction, st uint64) uint64 {
+			if _, isD := in.(*ssa.Defer); isD && !ff.Replaying {
+				return st
+			}
+			if isCloseRun(in, genv) {
+				return st | 1
+			}
+			if st&1 != 0 {
+				if ci, ok := in.(ssa.CallInstruction); ok {
+					if _, isMap := k.mapCallE(in, genv, ""); isMap {
+						after = p.Pos(instrPos(in))
+					}
+					ts, _ := k.x.callTargets(ci.Common(), genv)
+					for _, tg := range ts {
+						if cleanup != nil && tg.Fn == origin(cleanup) || k.reachesMutation(tg, genv) {
+							after = p.Pos(instrPos(in))
+						}
+					}
+				}
+			}
+			return st
+		}}
+		ff.Run()
+		switch {
+		case nr > 0 && !okc:
+			r.Violation("C15.U4-cleaner-exit", gname+" closes the done channel on exit", wherecS, "the cleaner goroutine can exit (at "+wherecS+") without closing "+runName+": Stop waits forever")
+		case after != "":
+			r.Violation("C15.U4-cleaner-exit", gname+" closes the done channel on exit", after, "the cleaner goroutine still touches the cache (at "+after+") after closing "+runName+": Stop returns while the cleaner is still cleaning")
+		default:
+			r.OK("C15.U4-cleaner-exit", gname+" closes the done channel on exit", p.Pos(g.Pos()), "the done channel is closed on every exit of the goroutine body, after its last cleaning step")
+		}
+
+		k.checkPeriodic(ctx, cl.g, gname, cleanup)
+		k.checkWaits(ctx, cl.g, gname, runName, stpName)
+
+		// start: the done channel is created before the go statement; NewCache always reaches it
+		construct := FuncName(p, cl.g.Site.In.Parent()) + " -> go " + gname
+		var makes []c15Site
+		k.x.walk(ctx, nc, nil, nil, func(in ssa.Instruction, env *c15Env) {
+			if k.joinArm(in, env) {
+				makes = append(makes, c15Site{in, env})
+			}
+		}, nil)
+		created, anywhere := false, false
+		for _, m := range makes {
+			if c15Before(m, cl.g.Site) {
+				created = true
+			}
+		}
+		for _, fn := range p.FuncsOfPkg("ttlcache") {
+			allInstrs(fn, func(in ssa.Instruction) {
+				if st, ok := in.(*ssa.Store); ok {
+					if fa, ok := st.Addr.(*ssa.FieldAddr); ok {
+						if id := fieldIDOfAddr(fa); id.Type == k.x.cfg.CacheT && id.Field == k.runF {
+							anywhere = true
+						}
+					}
+				}
+				if k.runWG && k.wgOp(in, "Add") == k.runF {
+					anywhere = true
+				}
+			})
+		}
+		goIn := cl.g.Site.In
+		okS, nS, _ := k.x.must(nc, nil, func(in ssa.Instruction, env *c15Env) bool { return in == goIn }, 0)
+		switch {
+		case !created && (len(makes) > 0 || !anywhere):
+			r.Violation("C15.U4-cleaner-start", construct, p.Pos(instrPos(goIn)), runName+" is not created (make(chan)) before the cleaner goroutine is started: the goroutine may close a nil/unset channel, or Stop may wait on a channel nobody closes")
+		case !created:
+			r.Undecide("%s: %s is assigned somewhere, but not by a make(chan) that NewCache executes before the go statement in a way the check can follow", construct, runName)
+		case !(okS && nS > 0):
+			r.Violation("C15.U4-cleaner-start", construct, p.Pos(nc.Pos()), "NewCache can return without starting the cleaner goroutine: "+runName+" is never closed and Stop never returns")
+		default:
+			r.OK("C15.U4-cleaner-start", construct, p.Pos(instrPos(goIn)), "the done channel is created before the go statement and NewCache always starts the cleaner")
+		}
+	}
+}
+
+// checkPeriodic: the goroutine mutates the store only through Cleanup, synchronously.
+func (k *c15K) checkPeriodic(ctx *c15Ctx, g c15Go, gname string, cleanup *ssa.Function) {
+	p, r := k.p, k.r
+	detached, detachedPos := "", ""
+	badCall, badPos := "", ""
+	hasJoin := false
+	isCleanup := func(f *ssa.Function) bool { return cleanup != nil && f == origin(cleanup) }
+	underGoInG := func(env *c15Env, in ssa.Instruction) bool {
+		if _, isGo := in.(*ssa.Go); isGo {
+			return true
+		}
+		for e := env; e != nil && e != g.Env; e = e.up {
+			if e.how == "go" {
+				return true
+			}
+		}
+		return false
+	}
+	var unresolved []string
+	k.x.walk(ctx, g.Tg.Fn, g.Env, nil, func(in ssa.Instruction, env *c15Env) {
+		ci, ok := in.(ssa.CallInstruction)
+		if !ok {
+			return
+		}
+		if callIs(ci, "sync", "WaitGroup", "Wait") && k.wgOp(in, "Wait") != k.runF {
+			hasJoin = true
+		}
+		if _, isMap := k.mapCallE(in, env, ""); isMap {
+			name := calleeObj(ci).Name()
+			if c15ReadOnlyMapMethod(name) {
+				return
+			}
+			if name != "Del" && name != "GetAndDel" {
+				badCall, badPos = "Map."+name+" on the store", p.Pos(instrPos(in))
+			}
+			if underGoInG(env, in) && detached == "" {
+				detached, detachedPos = "Map."+name+" on the store", p.Pos(instrPos(in))
+			}
+			return
+		}
+		if _, isGo := in.(*ssa.Go); isGo {
+			ts, _ := k.x.callTargets(ci.Common(), env)
+			for _, tg := range ts {
+				if k.x.inlinable(tg.Fn) && (isCleanup(tg.Fn) || k.reachesMutation(tg, env)) {
+					detached, detachedPos = FuncName(p, tg.Fn), p.Pos(instrPos(in))
+				}
+			}
+		}
+	}, func(in ssa.Instruction, env *c15Env) {
+		unresolved = append(unresolved, p.Pos(instrPos(in)))
+	})
+	// every delete the goroutine can perform (through Cleanup or otherwise,
+	// through whatever func value) removes expired entries only
+	construct := gname + " removes only expired entries"
+	viol, violPos, undec, nOK := "", "", "", 0
+	a := k.analyseDeletes(ctx, g.Tg.Fn, g.Env)
+	k.expiredOnly(ctx, a, gname, c15Sink{
+		ok: func(c, pos, msg string) { nOK++ },
+		viol: func(c, pos, msg string, wit ...string) {
+			if viol == "" {
+				viol, violPos = c+": "+msg, pos
+			}
+		},
+		undec: func(format string, args ...any) { undec = fmt.Sprintf(format, args...) },
+	})
+	switch {
+	case badCall != "":
+		r.Violation("C15.U3-periodic-via-cleanup", construct, badPos, "the background goroutine can call "+badCall+" (at "+badPos+"): the periodic cleaner rewrites entries instead of only removing expired ones")
+	case viol != "":
+		r.Violation("C15.U3-periodic-via-cleanup", construct, violPos, "a delete the background goroutine can perform (directly, through a helper, a method value, a func variable or a phi of them) is not restricted to expired entries — "+viol+" — so the periodic cleaner makes live entries of keys nobody touched disappear (e.g. a key Set shortly before the tick)")
+	case len(unresolved) > 0:
+		r.Undecide("%s: a call through a func value at %s has targets that cannot be resolved; cannot decide what the periodic cleaner removes", gname, strings.Join(unresolved, ", "))
+	case undec != "":
+		r.Undecide("%s: %s", construct, undec)
+	default:
+		r.OK("C15.U3-periodic-via-cleanup", construct, p.Pos(g.Tg.Fn.Pos()),
+			fmt.Sprintf("all %d key commits reachable from the goroutine (through Cleanup, helpers or func values) are made under clock.Now() >(=) entry.exp; no other mutation of the store", nOK))
+	}
+	switch {
+	case detached != "" && hasJoin:
+		r.Undecide("%s: %s is started with `go` at %s inside the cleaner and a WaitGroup.Wait is present; whether it is joined before the done signal is not analysed", gname, detached, detachedPos)
+	case detached != "":
+		r.Violation("C15.U4-cleaner-synchronous", gname+" cleans synchronously", detachedPos,
+			"the cleaner starts "+detached+" with `go` (at "+detachedPos+") and never joins it: when the stop channel is closed the loop exits and signals done while that detached goroutine may still be scanning and deleting — Stop returns before the background cleaning has ended")
+	default:
+		r.OK("C15.U4-cleaner-synchronous", gname+" cleans synchronously", p.Pos(g.Tg.Fn.Pos()),
+			"no call that can reach a mutation of the store is started with `go` inside the cleaner (or inside Cleanup)")
+	}
+}
+
+// checkWaits: every blocking operation of the goroutine (in its body or in the
+// helpers it calls, Cleanup excluded) is a select with a stop-channel case, and
+// after that case fires the wait is not reached again.
+func (k *c15K) checkWaits(ctx *c15Ctx, g c15Go, gname, runName, stpName string) {
+	p, r := k.p, k.r
+	cleanup := p.FuncOpt("ttlcache", "Cache.Cleanup")
+	nWait := 0
+	k.x.walk(ctx, g.Tg.Fn, g.Env, func(f *ssa.Function) bool { return cleanup != nil && f == origin(cleanup) }, func(in ssa.Instruction, env *c15Env) {
+		switch t := in.(type) {
+		case *ssa.UnOp:
+			if t.Op != token.ARROW {
+				return
+			}
+			nWait++
+			construct := k.waitName(gname, nWait)
+			if k.chanField(t.X, env) == k.stpF {
+				r.OK("C15.U4-cleaner-stopcase", construct, p.Pos(instrPos(in)), "plain wait on the stop channel")
+				return
+			}
+			r.Violation("C15.U4-cleaner-stopcase", construct, p.Pos(instrPos(in)), "the cleaner goroutine blocks on a receive (at "+p.Pos(instrPos(in))+") where a close of "+stpName+" cannot wake it: Stop never returns")
+		case *ssa.Send:
+			nWait++
+			r.Undecide("%s: the cleaner goroutine sends on a channel at %s; whether Stop can always get past it is not analysed", k.waitName(gname, nWait), p.Pos(instrPos(in)))
+		case *ssa.Call:
+			if callIs(t, "sync", "WaitGroup", "Wait") {
+				nWait++
+				r.Undecide("%s: the cleaner goroutine waits on a WaitGroup at %s; not analysed", k.waitName(gname, nWait), p.Pos(instrPos(in)))
+			}
+		case *ssa.Select:
+			if !t.Blocking {
+				return
+			}
+			nWait++
+			construct := k.waitName(gname, nWait)
+			pos := p.Pos(instrPos(in))
+			si := decodeSelect(t)
+			var stopBody *ssa.BasicBlock
+			has := false
+			for i, s := range t.States {
+				if s.Dir == types.RecvOnly && k.chanField(s.Chan, env) == k.stpF {
+					has = true
+					if i < len(si.Cases) {
+						stopBody = si.Cases[i].Body
+					}
+				}
+			}
+			if !has {
+				r.Violation("C15.U4-cleaner-stopcase", construct, pos, "the cleaner's select has no case on "+stpName+": the goroutine never exits and Stop never returns")
+				return
+			}
+			if stopBody == nil {
+				r.Undecide("%s: the body of the stop-channel case could not be located", construct)
+				return
+			}
+			switch k.waitsAgain(stopBody, in.Block(), env, g.Env, 0) {
+			case 2:
+				r.Violation("C15.U4-cleaner-stopcase", construct, pos, "after the "+stpName+" case of the cleaner's select fires, control goes back to the same wait unconditionally instead of leaving the loop: the goroutine never exits and Stop never returns")
+			case 1:
+				r.Undecide("%s: after the stop-channel case fires the wait can be reached again through a branch whose outcome could not be determined", construct)
+			default:
+				r.OK("C15.U4-cleaner-stopcase", construct, pos, "select has a stop-channel case after which the wait is not reached again")
+			}
+		}
+	}, nil)
+	if nWait == 0 {
+		r.Undecide("%s: no wait found in the cleaner goroutine or the helpers it calls", gname)
+	}
+}
+
+func (k *c15K) waitName(gname string, n int) string {
+	if n > 1 {
+		return fmt.Sprintf("%s wait #%d", gname, n)
+	}
+	return gname + " wait"
+}
+
+// waitsAgain: after control enters `from` (the stop case body) can the block
+// `target` (holding the wait) of activation env be reached again? When the
+// activation returns, the search continues in its caller with the returned
+// constant known, up to the goroutine's own activation.
+func (k *c15K) waitsAgain(from, target *ssa.BasicBlock, env, root *c15Env, depth int) int {
+	best := 0
+	if from == target {
+		return 2 // the case has no body of its own: it falls straight back into the wait
+	}
+	var pred *ssa.BasicBlock
+	if len(from.Preds) == 1 {
+		pred = from.Preds[0]
+	}
+	type retInfo struct {
+		val     *bool
+		certain bool
+	}
+	var rets []retInfo
+	res := c15Reach(from, pred, target, map[ssa.Value]bool{}, func(ret *ssa.Return, kn map[ssa.Value]bool, certain bool) {
+		ri := retInfo{certain: certain}
+		if len(ret.Results) == 1 {
+			if c, ok := ret.Results[0].(*ssa.Const); ok && c.Value != nil && c.Value.Kind() == constant.Bool {
+				b := constant.BoolVal(c.Value)
+				ri.val = &b
+			} else if b, ok := kn[ret.Results[0]]; ok {
+				ri.val = &b
+			}
+		}
+		rets = append(rets, ri)
+	})
+	if res > best {
+		best = res
+	}
+	if env == root || env == nil || env.via == nil || depth > 4 {
+		return best // returning from the goroutine body ends it
+	}
+	call, isCall := env.via.(*ssa.Call)
+	if !isCall || env.how != "call" {
+		// deferred / callback activations: what runs next is not modelled
+		if len(rets) > 0 && best < 1 {
+			best = 1
+		}
+		return best
+	}
+	for _, ri := range rets {
+		known := map[ssa.Value]bool{}
+		if ri.val != nil {
+			known[call] = *ri.val
+		}
+		// continue after the call: the wait is reached again iff the call is executed again
+		var sub int
+		subRets := 0
+		sub = c15Reach(call.Block(), nil, call.Block(), known, func(*ssa.Return, map[ssa.Value]bool, bool) { subRets++ })
+		if sub == 0 && subRets > 0 && env.up != root && env.up != nil {
+			// the caller itself returns: go one level further up without value knowledge
+			if k.callerLoops(env.up, root, depth+1) {
+				sub = 1
+			}
+		}
+		if !ri.certain && sub == 2 {
+			sub = 1
+		}
+		if sub > best {
+			best = sub
+		}
+	}
+	return best
+}
+
+// callerLoops: the call that created activation env sits on a cycle of its caller (conservative).
+func (k *c15K) callerLoops(env, root *c15Env, depth int) bool {
+	if env == nil || env == root || env.via == nil || depth > 4 {
+		return false
+	}
+	b := env.via.Block()
+	for _, s := range b.Succs {
+		if reachableFrom(s, nil)[b] {
+			return true
+		}
+	}
+	return k.callerLoops(env.up, root, depth+1)
 }
 
 // -------------------------------------------------------------- U6 writers
@@ -1784,26 +2345,36 @@ func (k *c15K) checkWriters() {
 	var ks []keySite
 	for _, spec := range [][2]string{{"Cache.Get", "Get"}, {"Cache.Set", "Set"}, {"Cache.Delete", "Del"}} {
 		fn := p.Func("ttlcache", spec[0])
-		allInstrs(fn, func(in ssa.Instruction) {
-			cc, ok := k.mapCall(in, spec[1])
+		nSite := 0
+		k.x.walk(k.x.newCtx(), fn, nil, nil, func(in ssa.Instruction, env *c15Env) {
+			cc, ok := k.mapCallE(in, env, spec[1])
+			if !ok && spec[1] == "Del" {
+				cc, ok = k.mapCallE(in, env, "GetAndDel")
+			}
 			if !ok || len(cc.Args) < 2 {
 				return
 			}
+			nSite++
 			keys := []ssa.Value{cc.Args[1]}
-			if spec[1] == "Del" {
-				if elems, ok := varargsElems(cc.Args[1]); ok {
-					keys = elems
+			if calleeObj(in.(ssa.CallInstruction)).Name() == "Del" {
+				sv, senv := k.x.strip(cc.Args[1], env)
+				if elems, ok := varargsElems(sv); ok {
+					keys, env = elems, senv
 				}
 			}
 			raw := len(keys) > 0
 			for _, kv := range keys {
-				sv, _ := k.x.strip(kv, nil)
+				sv, _ := k.x.strip(kv, env)
 				if pa, ok := sv.(*ssa.Parameter); !ok || pa.Parent() != fn {
 					raw = false
 				}
 			}
-			ks = append(ks, keySite{FuncName(p, fn) + " key passed to Map." + spec[1], p.Pos(instrPos(in)), raw})
-		})
+			construct := FuncName(p, fn) + " key passed to Map." + spec[1]
+			if nSite > 1 {
+				construct += fmt.Sprintf(" #%d", nSite)
+			}
+			ks = append(ks, keySite{construct, p.Pos(instrPos(in)), raw})
+		}, nil)
 	}
 	nRaw := 0
 	for _, s := range ks {
@@ -1814,46 +2385,53 @@ func (k *c15K) checkWriters() {
 	for _, s := range ks {
 		switch {
 		case s.raw:
-			r.OK("C15.U6-same-key", s.construct, s.pos, "the key parameter is passed unchanged")
+			r.OK("C15.U6-same-key", s.construct, s.pos, "the key parameter reaches the map unchanged")
 		case nRaw == 0:
 			r.Undecide("%s: no site passes the key parameter unchanged; consistency of the key transformation is not analysed", s.construct)
 		default:
 			r.Undecide("%s (at %s) passes something other than the key parameter while other sites pass it unchanged: if the two differ, Get cannot see what Set stored / Delete removes another entry — cannot decide whether the transformation is the identity", s.construct, s.pos)
 		}
 	}
-	allowed := map[string]map[string]bool{ // method -> exported API function whose family may call it
-		"Set": {"Cache.Set": true},
-		"Del": {"Cache.Delete": true, "Cache.Cleanup": true, "Cache.Reset": true},
+
+	// mutation sites belong to the audited entry points
+	allowed := map[string][]string{
+		"Set":       {"Cache.Set"},
+		"Del":       {"Cache.Delete", "Cache.Cleanup", "Cache.Reset"},
+		"GetAndDel": {"Cache.Delete"},
 	}
-	readOnly := map[string]bool{"Get": true, "ForEach": true, "Len": true, "Fillrate": true, "MarshalJSON": true, "Grow": true}
-	owner := map[*ssa.Function]string{}
-	for _, api := range []string{"Cache.Set", "Cache.Delete", "Cache.Cleanup", "Cache.Reset", "Cache.Get", "Cache.Stop"} {
+	reach := map[string]map[*ssa.Function]bool{}
+	for _, api := range []string{"Cache.Set", "Cache.Delete", "Cache.Cleanup", "Cache.Reset"} {
 		if fn := p.FuncOpt("ttlcache", api); fn != nil {
-			for _, f := range k.family(fn) {
-				if _, dup := owner[f]; !dup || f == origin(fn) {
-					owner[f] = api
-				}
-			}
+			reach[api] = k.visited(fn)
 		}
 	}
 	for _, fn := range p.FuncsOfPkg("ttlcache") {
 		allInstrs(fn, func(in ssa.Instruction) {
-			cc, ok := k.mapCall(in, "")
-			if !ok {
+			ci, isCall := in.(ssa.CallInstruction)
+			if !isCall {
 				return
 			}
-			_ = cc
-			name := calleeObj(in.(ssa.CallInstruction)).Name()
-			if readOnly[name] {
+			obj := calleeObj(ci)
+			if obj == nil || obj.Pkg() == nil || obj.Pkg().Path() != c15Hax || c15ReadOnlyMapMethod(obj.Name()) {
 				return
 			}
-			own := owner[origin(fn)]
-			construct := fmt.Sprintf("%s calls Map.%s", FuncName(p, fn), name)
-			if allowed[name][own] {
-				r.OK("C15.U6-writers", construct, p.Pos(instrPos(in)), "audited mutation site (in the family of "+own+")")
+			if sig, ok := obj.Type().(*types.Signature); !ok || sig.Recv() == nil {
+				return // constructors
+			}
+			name := obj.Name()
+			var owners []string
+			for _, api := range allowed[name] {
+				if reach[api][origin(fn)] {
+					owners = append(owners, api)
+				}
+			}
+			for _, api := range owners {
+				r.OK("C15.U6-writers", fmt.Sprintf("ttlcache.%s reaches Map.%s", api, name), p.Pos(instrPos(in)), "audited mutation site (in "+FuncName(p, fn)+")")
+			}
+			if len(owners) > 0 {
 				return
 			}
-			r.Undecide("%s at %s: a mutation of Cache.m outside the audited sites (Set in Set; Del in Delete/Cleanup/Reset) — the rules do not cover it", construct, p.Pos(instrPos(in)))
+			r.Undecide("Map.%s in %s at %s: a mutation of the store outside the audited entry points (Set in Set; Del in Delete/Cleanup/Reset) — the rules do not cover it", name, FuncName(p, fn), p.Pos(instrPos(in)))
 		})
 	}
 }
